@@ -2,66 +2,59 @@
    whenever rendering returns Ok, no line is wider than the requested width.
    Partial correctness (only the Ok outcome is considered).  No axioms.
 
-   MAIN THEOREMS (section 13/14)
+   MAIN THEOREMS (sections 13/14)
 
      c02_render_width_bound :
        forall d min_wrap o width tree s,
-         ol_prefix_monotone d ->                              (H1)
+         ol_prefix_monotone d -> ol_prefix_sat d ->          (H1)
          o_allow_overflow o = false ->                        (H2)
          (o_footnotes o = true -> o_wrap_links o = true) ->   (H3)
          1 <= width ->                                        (H4)
-         c02_side d min_wrap o width width tree = true ->     (H5, decidable)
+         c02_side o width tree = true ->                      (H5, decidable)
          render_tree d min_wrap o width tree = Ok s ->
          forall ls, sub_into_lines s = Ok ls -> forall r, In r ls -> rline_width r <= width.
 
      c02_render_width_bound_gen : the same with the link-target characters checked against
-       any bound Wl <= width;  c02_render_width_bound_w2 : Wl = 2 and 2 <= width.
+       any bound Wl <= width;  c02_render_width_bound_w2 : Wl = 2 and 2 <= width;
+       c02_render_width_bound_nofoot : footnotes off (no link-target condition at all).
 
      c02_lines_from_read : through Api.lines_from_read (tl_width_raw of every returned
        tagged line <= w), with the side condition c02_doc_side computed on the document.
 
-     ol_prefix_monotone_plain / _rich / _trivial : (H1) holds for the built-in decorators.
+     ol_prefix_monotone_plain/_rich/_trivial, ol_prefix_sat_plain/_rich/_trivial :
+       (H1) holds for the built-in decorators.
 
    THE HYPOTHESES, and why each is there
 
-   (H1) ol_prefix_monotone d: the ordered-list prefix of a number between a and b is no
-        wider than the wider of the prefixes of a and b.  render_node only measures the
-        prefixes of the first and the last number of a list; a decorator violating (H1)
-        really overflows.  No other property of the decorator is needed (prefixes are
-        measured by display width in the model).
+   (H1) the only properties of the decorator that are needed, both about d_ol_prefix:
+        ol_prefix_monotone d: the prefix of a number between a and b is no wider than the
+        wider of the prefixes of a and b;  ol_prefix_sat d: the prefix of i64_max is no
+        wider than the prefix of i64_max - 1.  render_node only measures the prefixes of
+        the first number and of  isat64 (isat64 (start + n) - 1); the item numbers are
+        start, isat64 (start+1), ... which saturate at i64_max while the measured last
+        number is then i64_max - 1.  A decorator violating them really overflows.
    (H2) overflow is not allowed (otherwise lines may of course be wider).
    (H3) footnotes are only wrapped when o_wrap_links is set; without it a footnote line is
-        as wide as the link target (an option, not a defect: see cex3 below).
-   (H4) width 0 is rejected by the public routes anyway.
-   (H5) c02_side = tree_ok ... (Some width) tree, a boolean function of the render tree
-        (section 12) made of three checks:
-        (a) prefix fit: at every node that renders its children into a narrower
-            sub-renderer behind a prefix of p columns (Header, BlockQuote, Ul, Ol, Dd):
-              1 <= (estimated minimum width of the node) - p   or   p < avail
-            where avail is a lower bound of the width of the current sub-renderer that
-            the check tracks itself (width at the top, avail - p below a prefixed node,
-            1 inside table cells).  Reason: `width_minus` computes `width - p` with a
-            SATURATING subtraction and only compares the result with the estimated
-            minimum; when that minimum is 0 and p > width, the children are rendered at
-            width 0 and every line they emit gets the p-column prefix.  This is a real
-            counterexample of the model (cex1 .. cex1d in section 15, e.g.
-            <ul><li><table><tr><td></td></tr></table></li></ul> at width 1 gives a line of
-            width 2; <h3> around the same table at width 3 gives width 4).
-            The check is strict (p < avail, not p <= avail) because all sub-renderers
-            are kept at width >= 1: at width 0 `get_wrapping` with a max_wrap set creates
-            a wrapping block of width 1 > 0 (cex2: "* x" at width 2 with min_wrap = 0).
-        (b) every ordered list has i64_min <= start and start + (number of items) <=
-            i64_max, i.e. the numbering does not saturate (then the item numbers are
-            exactly start .. start+n-1, all between the two measured ends).
+        as wide as the link target (an option, not a defect: cex3 in section 15).
+   (H4) width 0 is rejected by the public routes anyway; fmt_links needs room for the
+        1-column characters of "[n]: ".
+   (H5) c02_side o Wl tree = tree_ok (o_footnotes o) Wl tree, a boolean function of the
+        render tree (section 12) made of two checks:
+        (b) every ordered list has i64_min <= start.  Trees built from a DOM always
+            satisfy it (Dom.parse_i64 checks i64_ok); for start < i64_min the numbering
+            jumps to i64_min and then runs past the measured last number.
         (c) when footnotes are on: every character of every link target is at most
             Wl (= width) columns wide.  `fmt_links` puts a character that is wider than
             the line on a line of its own (known defect, cex4).
-        If the size estimate of a prefixed node fails, render_node fails too, and the
-        check is vacuously true.
+        The former prefix-fit condition is gone: `width_minus` now answers TooNarrow when
+        the prefix is wider than the renderer, sub-renderers of width 0 are legitimate,
+        and the WrappedBlock layer is proved for every width including 0 (section 2).
 
    STRUCTURE
-     1-2  widths of made strings; WrappedBlock layer = WrapInv.Inv (needs wwidth >= 1,
-          which is why all sub-renderers are kept at width >= 1)
+     1    widths of made strings
+     2    WrappedBlock layer for ANY width, partial correctness: invariant InvP = WrapInv.Inv
+          without `1 <= wwidth`; width >= 1 reuses WrapInv, width 0 has a direct argument
+          (every line a width-0 block emits has width 0)
      3-8  sub-renderer layer: invariant sub_ok, preserved by every SubRenderer operation,
           append_subrender, append_columns_with_borders, append_vert_row, fmt_links
      9    decorator prefixes, decimal printing
@@ -69,11 +62,8 @@
      11   table arithmetic (shrink_loop, cell_widths)
      12   render layer: node_ok_all (every render_node call preserves the stack invariant
           and the widths of the sub-renderers on the stack)
-     13   render_tree;  14  Api;  15  non-vacuity example and recorded counterexamples.
-
-   NOT DONE: the WrappedBlock layer is not redone for width 0 (partial correctness
-   without `1 <= wwidth`), so the prefix-fit check is strict even when max_wrap is unset;
-   inside table cells the available width is only known to be >= 1. *)
+     13   render_tree;  14  Api;  15  non-vacuity example, regression examples for the
+          former counterexamples, remaining counterexamples. *)
 From H2T Require Import Base Tagged Wrap Sub Css Dom Render Api.
 From H2T Require Import Proofs.WrapInv.
 From Coq Require Import Lia ZifyN ZifyBool ZifyNat.
@@ -204,56 +194,363 @@ Proof.
 Qed.
 
 (* ================================================================== *)
-(* 2. WrappedBlock layer (reusing WrapInv.Inv; wwidth >= 1)             *)
+(* 2. WrappedBlock layer, any width (partial correctness)               *)
 (* ================================================================== *)
 
+(* WrapInv.Inv without the conjunct 1 <= wwidth *)
+Definition InvP (b : wblock) : Prop :=
+  line_ok (wwidth b) (wline b) /\
+  (forall l, In l (wtext b) ->
+     tlen_ l = tl_width_raw l /\
+     (allow_overflow b = false -> tl_width_raw l <= wwidth b)) /\
+  wordlen b = word_width (wword b) /\
+  (0 < wslen b -> spacetag b <> None) /\
+  elems_have_width (wword b).
+
+Lemma Inv_InvP b : Inv b <-> 1 <= wwidth b /\ InvP b.
+Proof. unfold Inv, InvP. tauto. Qed.
+
+(* ---- width 0, overflow not allowed: the direct argument ---- *)
+
+(* the part about the lines *)
+Definition Z0 (b : wblock) : Prop :=
+  wwidth b = 0 /\ allow_overflow b = false /\
+  tlen_ (wline b) = 0 /\ tl_width_raw (wline b) = 0 /\
+  (forall l, In l (wtext b) -> tlen_ l = tl_width_raw l /\ tl_width_raw l = 0) /\
+  (0 < wslen b -> spacetag b <> None).
+
+Definition ZI (b : wblock) : Prop :=
+  Z0 b /\ wordlen b = vw (wword b) /\ elems_have_width (wword b).
+
+Lemma ZI_InvP b : wwidth b = 0 -> allow_overflow b = false -> (InvP b <-> ZI b).
+Proof.
+  intros Hw Ho. unfold InvP, ZI, Z0, line_ok, word_width. rewrite Hw, Ho. split.
+  - intros ((A1 & A2) & B & C & D & E). repeat split; auto; try lia.
+    + apply B; assumption.
+    + destruct (B l H) as [_ X]. specialize (X eq_refl). lia.
+  - intros ((_ & _ & A1 & A2 & B & D) & C & E). repeat split; auto; try lia.
+    + apply B; assumption.
+    + intros _. destruct (B l H) as [_ X]. lia.
+Qed.
+
+(* b' differs from b only in its finished lines and current line *)
+Definition lc (b b' : wblock) : Prop := exists tx ln, b' = set_text_line b tx ln.
+
+Lemma lc_refl b : lc b b.
+Proof. exists (wtext b), (wline b). symmetry. apply set_text_line_id. Qed.
+Lemma lc_trans a b c : lc a b -> lc b c -> lc a c.
+Proof. intros (t1 & l1 & ->) (t2 & l2 & ->). exists t2, l2. reflexivity. Qed.
+Lemma lc_set_line b ln : lc b (set_line b ln).
+Proof. exists (wtext b), ln. reflexivity. Qed.
+
+Lemma Z0_stl b tx ln :
+  Z0 b -> tlen_ ln = 0 -> tl_width_raw ln = 0 ->
+  (forall l, In l tx -> tlen_ l = tl_width_raw l /\ tl_width_raw l = 0) ->
+  Z0 (set_text_line b tx ln).
+Proof. unfold Z0. prj. tauto. Qed.
+
+Lemma Z0_set_line b ln : Z0 b -> tlen_ ln = 0 -> tl_width_raw ln = 0 -> Z0 (set_line b ln).
+Proof. unfold Z0. prj. tauto. Qed.
+Lemma Z0_set_word b w n : Z0 b -> Z0 (set_word b w n).
+Proof. unfold Z0. prj. tauto. Qed.
+Lemma Z0_set_prew b p : Z0 b -> Z0 (set_prew b p).
+Proof. unfold Z0. prj. tauto. Qed.
+Lemma Z0_set_space b st n : Z0 b -> (0 < n -> st <> None) -> Z0 (set_space b st n).
+Proof. unfold Z0. prj. tauto. Qed.
+
+Lemma Z0_push_str b s t :
+  Z0 b -> swidth s = 0 -> Z0 (set_line b (tl_push (wline b) (Str s t))).
+Proof.
+  intros HZ Hs. pose proof HZ as (HW & Ho & Hl & Hr & Htx & Hst).
+  apply Z0_set_line; [exact HZ| |]; rewrite ?tlen_push, ?raw_push; cbn [elem_text]; lia.
+Qed.
+
+Lemma ffl_z b b' : Z0 b -> force_flush_line b = Ok b' -> Z0 b' /\ lc b b'.
+Proof.
+  intros HZ H. pose proof HZ as (Hw & Ho & Hl & Hr & Htx & Hst).
+  destruct (ffl_spec b) as (l' & E & H1 & H2); [congruence|].
+  rewrite E in H. injection H as <-. split; [|eexists; eexists; reflexivity].
+  apply Z0_stl; auto. intros l Hin. apply in_app_or in Hin. destruct Hin as [Hin|[<-|[]]]; auto.
+  split; [exact H1|]. specialize (H2 ltac:(lia)). lia.
+Qed.
+
+Lemma flush_line_z b b' : Z0 b -> flush_line b = Ok b' -> Z0 b' /\ lc b b'.
+Proof.
+  intros HZ H. unfold flush_line in H. destruct (tl_is_empty (wline b)).
+  - injection H as <-. split; [exact HZ|apply lc_refl].
+  - apply ffl_z; assumption.
+Qed.
+
+Lemma hw_piece_z t w : forall fuel b rest consumed wpos r,
+  Z0 b -> has_width rest -> wpos + swidth rest = w ->
+  hw_piece fuel b t w rest consumed 0 wpos = Ok r ->
+  Z0 (fst r) /\ lc b (fst r) /\ snd r = 0.
+Proof.
+  induction fuel as [|f IH]; intros b rest consumed wpos r HZ Hw Hsum H; cbn [hw_piece] in H;
+    [discriminate|].
+  pose proof HZ as (HW & Ho & Hl & Hr & Htx & Hst).
+  bind_inv H rem Hrem. unfold usub in Hrem. destruct (wpos <=? w); [|discriminate].
+  injection Hrem as <-.
+  destruct (N.ltb_spec 0 (w - wpos)) as [Hlt|Hge].
+  - bind_inv H r0 Hscan. rewrite Ho in Hscan.
+    pose proof (hw_scan_spec false (wline b) ltac:(congruence) rest true [] 0 wpos Hw
+                  (fun _ => eq_refl) ltac:(discriminate) ltac:(lia)) as G.
+    rewrite Hscan in G. cbn [good] in G. destruct r0 as [[taken ll0] wpos'].
+    destruct G as (pre & rest' & E1 & E2 & E3 & E4). cbn [rev app] in E2. subst taken.
+    assert (Hpre : swidth pre = 0).
+    { destruct E4 as [[X _]|(_ & X & _)]; [lia|discriminate]. }
+    bind_inv H b2 Hffl.
+    apply ffl_z in Hffl.
+    2:{ apply Z0_push_str; assumption. }
+    destruct Hffl as [HZ2 Hlc2]. pose proof HZ2 as (HW2 & _). rewrite HW2 in H.
+    subst rest. rewrite skipn_length_app in H.
+    apply has_width_app in Hw. destruct Hw as [_ Hw']. rewrite swidth_app in Hsum.
+    destruct (IH b2 rest' _ wpos' _ HZ2 Hw' ltac:(lia) H) as (A & B & C).
+    split; [exact A|]. split; [|exact C].
+    eapply lc_trans; [|exact B]. eapply lc_trans; [apply lc_set_line|exact Hlc2].
+  - assert (Hz : swidth rest = w - wpos) by lia.
+    destruct consumed; cbn [negb] in H.
+    + destruct rest as [|c rest].
+      * injection H as <-. cbn [fst snd]. split; [exact HZ|]. split; [apply lc_refl|reflexivity].
+      * bind_inv H ll Hll. unfold usub in Hll. destruct (w - wpos <=? 0); [|discriminate].
+        injection Hll as <-. injection H as <-. cbn [fst snd].
+        split; [|split; [apply lc_set_line|lia]].
+        exact (Z0_push_str b (c :: rest) t HZ ltac:(lia)).
+    + bind_inv H ll Hll. unfold usub in Hll. destruct (N.leb_spec w 0); [|discriminate].
+      injection Hll as <-. injection H as <-. cbn [fst snd].
+      split; [|split; [apply lc_set_line|lia]].
+      exact (Z0_push_str b rest t HZ ltac:(lia)).
+Qed.
+
+Lemma hw_elems_z : forall els b r,
+  Z0 b -> elems_have_width els -> hw_elems b els 0 = Ok r -> Z0 r /\ lc b r.
+Proof.
+  induction els as [|e els IH]; intros b r HZ Hw H; cbn [hw_elems] in H.
+  - injection H as <-. split; [exact HZ|apply lc_refl].
+  - inversion Hw as [|? ? He Hels]; subst. pose proof HZ as (HW & Ho & Hl & Hr & Htx & Hst).
+    destruct e as [s t|n].
+    + bind_inv H r0 Hp. destruct r0 as [b1 ll].
+      destruct (hw_piece_z t (swidth s) _ b s false 0 _ HZ He ltac:(lia) Hp) as (A & B & C).
+      cbn [fst snd] in *. subst ll. destruct (IH _ _ A Hels H) as [D E].
+      split; [exact D|eapply lc_trans; eassumption].
+    + destruct (IH _ _ (Z0_set_line b (tl_push (wline b) (Frag n)) HZ
+                         ltac:(rewrite tlen_push; cbn [elem_text]; rewrite swidth_nil; lia)
+                         ltac:(rewrite raw_push; cbn [elem_text]; rewrite swidth_nil; lia))
+                  Hels H) as [D E].
+      split; [exact D|]. eapply lc_trans; [apply lc_set_line|exact E].
+Qed.
+
+Lemma fwhw_z b b' :
+  Z0 b -> elems_have_width (wword b) -> flush_word_hard_wrap b = Ok b' ->
+  Z0 b' /\ exists tx ln, b' = set_word (set_text_line b tx ln) [] (wordlen b).
+Proof.
+  intros HZ Hw H. pose proof HZ as (HW & Ho & Hl & Hr & Htx & Hst).
+  unfold flush_word_hard_wrap in H. bind_inv H ll Hll. unfold usub in Hll.
+  rewrite HW, Hl in Hll. destruct (0 <=? 0); [|discriminate]. injection Hll as <-.
+  change (0 - 0) with 0 in H.
+  destruct (hw_elems_z _ _ _ (Z0_set_word b [] (wordlen b) HZ) Hw H) as [A (tx & ln & ->)].
+  split; [exact A|]. exists tx, ln. reflexivity.
+Qed.
+
+Lemma ws_loop_z fuel b b' :
+  Z0 b -> ws_loop fuel b = Ok b' -> b' = set_space b (spacetag b) 0.
+Proof.
+  intros (HW & _) H. destruct fuel as [|f]; cbn [ws_loop] in H.
+  - destruct (N.eqb_spec (wslen b) 0) as [E|]; [|discriminate]. injection H as <-.
+    destruct b; prj; subst; reflexivity.
+  - destruct (N.eqb_spec (wslen b) 0) as [E|].
+    + injection H as <-. destruct b; prj; subst; reflexivity.
+    + rewrite HW in H. change (0 =? 0) with true in H. cbn iota in H. injection H as <-. reflexivity.
+Qed.
+
+Ltac zfin :=
+  unfold ZI, Z0 in *; prj;
+  intuition (try lia; try congruence; try discriminate).
+
+Lemma flush_word_z b m b' : ZI b -> flush_word b m = Ok b' -> ZI b'.
+Proof.
+  intros HI H. pose proof HI as (HZ & Hwl & Hehw).
+  pose proof HZ as (HW & Ho & Hl & Hr & Htx & Hst).
+  unfold flush_word in H. destruct (word_is_empty (wword b)) eqn:Ewe.
+  - injection H as <-. pose proof (word_is_empty_vw _ Ewe). zfin.
+  - cbv zeta in H. prj. bind_inv H sil Hsil. unfold usub in Hsil. rewrite HW, Hl in Hsil.
+    destruct (0 <=? 0); [|discriminate]. injection Hsil as <-. change (0 - 0) with 0 in H.
+    destruct (N.leb_spec (wslen b + wordlen b) 0) as [Hfit|Hnofit].
+    + bind_inv H b1 H1. destruct (N.ltb_spec 0 (wslen b)); [lia|]. injection H1 as <-.
+      injection H as <-. prj.
+      assert (vw (wword b) = 0) by lia.
+      split; [|split; [reflexivity|constructor]].
+      apply Z0_set_word, Z0_set_line; [apply Z0_set_prew, HZ| |]; prj;
+        rewrite ?tlen_fold_push, ?raw_fold_push; lia.
+    + bind_inv H b1 H1.
+      assert (A : Z0 b1 /\ wword b1 = wword b /\ wordlen b1 = wordlen b).
+      { destruct (do_wrap m); cbn [negb] in H1.
+        - injection H1 as <-. prj. split; [|auto].
+          apply Z0_set_space; [apply Z0_set_prew, HZ|lia].
+        - destruct (N.leb_spec 0 (wslen b)); [|lia]. injection H1 as <-. prj. split; [|auto].
+          apply Z0_set_space; [apply Z0_set_prew, HZ|]. intros X. apply Hst. lia. }
+      destruct A as (Z1 & W1 & L1).
+      bind_inv H b2 H2. destruct (flush_line_z _ _ Z1 H2) as [Z2 (tx2 & ln2 & ->)].
+      bind_inv H b4 H4.
+      match type of H4 with ws_loop _ ?b3 = _ =>
+        assert (Z3 : Z0 b3) by (destruct (is_pre m); [apply Z0_set_prew|]; exact Z2);
+        apply (ws_loop_z _ _ _ Z3) in H4
+      end.
+      bind_inv H b6 H6.
+      match type of H6 with flush_word_hard_wrap ?b5 = _ =>
+        assert (Z5 : Z0 b5 /\ wword b5 = wword b)
+      end.
+      { subst b4. destruct (is_pre m); prj; (split; [|exact W1]);
+          (apply Z0_set_space; [apply Z0_set_space; [|lia]|lia]);
+          [apply Z0_set_prew|]; exact Z2. }
+      destruct Z5 as [Z5 W5].
+      destruct (fwhw_z _ _ Z5 ltac:(rewrite W5; exact Hehw) H6) as [Z6 (tx6 & ln6 & E6)].
+      injection H as <-. rewrite E6. rewrite E6 in Z6. prj.
+      split; [|split; [reflexivity|constructor]].
+      revert Z6. unfold Z0. prj. tauto.
+Qed.
+
+Lemma tab_loop_z t : forall f b pos one b',
+  wwidth b = 0 -> tab_loop f b t pos one = Ok b' -> b' = b.
+Proof.
+  intros f b pos one b' HW H. destruct f as [|f]; cbn [tab_loop] in H.
+  - destruct (negb (pos mod 8 =? 0) || negb one); [discriminate|]. injection H as <-. reflexivity.
+  - destruct (negb (pos mod 8 =? 0) || negb one).
+    + rewrite HW in H. change (0 =? 0) with true in H. cbn iota in H. injection H as <-. reflexivity.
+    + injection H as <-. reflexivity.
+Qed.
+
+Lemma add_char_z m t1 t2 b u c b' u' :
+  ZI b -> add_char m t1 t2 (b, u) c = Ok (b', u') -> ZI b'.
+Proof.
+  intros HI H. unfold add_char in H. bind_inv H b1 H1.
+  assert (HI1 : ZI b1).
+  { destruct (ws c && (0 <? wordlen b)).
+    - eapply flush_word_z; eassumption.
+    - injection H1 as <-. exact HI. }
+  clear H1 HI. cbv zeta in H.
+  pose proof HI1 as (HZ & Hwl & Hehw). pose proof HZ as (HW & Ho & Hl & Hr & Htx & Hst).
+  destruct (ws c).
+  - destruct (preserve_ws m).
+    + destruct (cp c =? 10).
+      * bind_inv H b2 H2. destruct (ffl_z _ _ HZ H2) as [Z2 (tx & ln & ->)].
+        injection H as <- _. revert Z2. unfold ZI, Z0. prj. intuition (try lia; try discriminate).
+      * destruct (cp c =? 9).
+        -- bind_inv H b2 H2. apply tab_loop_z in H2; [|exact HW]. subst b2.
+           injection H as <- _. exact HI1.
+        -- destruct (cw c) as [cwidth|].
+           ++ destruct (wwidth b1 <? tlen_ (wline b1) + wslen b1 + cwidth).
+              ** bind_inv H b2 H2.
+                 destruct (flush_line_z _ _ (Z0_set_space b1 (spacetag b1) 0 HZ ltac:(lia)) H2)
+                   as [Z2 (tx & ln & ->)].
+                 destruct (do_wrap m); injection H as <- _; revert Z2; unfold ZI, Z0; prj;
+                   intuition (try lia; try discriminate).
+              ** injection H as <- _. zfin.
+           ++ injection H as <- _. exact HI1.
+    + destruct ((0 <? tlen_ (wline b1)) && (wslen b1 =? 0)); injection H as <- _;
+        [zfin|exact HI1].
+  - destruct (cw c) as [cwidth|] eqn:Ecw.
+    + assert (Hc0 : cw0 c = cwidth) by (unfold cw0; rewrite Ecw; reflexivity).
+      assert (Hwc : has_width [c]) by (constructor; [congruence|constructor]).
+      injection H as <- _.
+      destruct (is_pre m && (wwidth b1 <? tlen_ (wline b1) + wslen b1 + (wordlen b1 + cwidth)));
+        prj; (split; [|split]); prj;
+        try (rewrite vw_push_merge, swidth_cons, swidth_nil; lia);
+        try (apply ehw_push_merge; assumption).
+      * apply Z0_set_word, Z0_set_prew, HZ.
+      * apply Z0_set_word, HZ.
+    + injection H as <- _. exact HI1.
+Qed.
+
+Lemma add_chars_z m t1 t2 : forall s b u r,
+  ZI b -> add_chars m t1 t2 (b, u) s = Ok r -> ZI (fst r).
+Proof.
+  induction s as [|c s IH]; intros b u r HI H; cbn [add_chars] in H.
+  - injection H as <-. exact HI.
+  - bind_inv H st' H1. destruct st' as [b1 u1]. eapply IH; [|exact H].
+    eapply add_char_z; eassumption.
+Qed.
+
+Lemma wb_into_lines_z b ls :
+  ZI b -> wb_into_lines b = Ok ls -> forall l, In l ls -> tl_width_raw l = 0.
+Proof.
+  intros HI H. unfold wb_into_lines, wb_flush in H. bind_inv H b2 H2. bind_inv H2 b1 H1.
+  injection H as <-. pose proof (flush_word_z _ _ _ HI H1) as (Z1 & _).
+  destruct (flush_line_z _ _ Z1 H2) as [(_ & _ & _ & _ & Htx & _) _].
+  intros l Hl. apply Htx, Hl.
+Qed.
+
+(* ---- any width: case split on wwidth = 0 ---- *)
+
 Definition wb_okW (W : N) (w : wblock) : Prop :=
-  Inv w /\ wwidth w <= W /\ allow_overflow w = false.
+  InvP w /\ wwidth w <= W /\ allow_overflow w = false.
 
 Lemma wb_add_text_okW W b s m t1 t2 b' :
   wb_okW W b -> wb_add_text b s m t1 t2 = Ok b' -> wb_okW W b'.
 Proof.
-  intros (HI & HW & Ho) H. pose proof (wb_add_text_total b s m t1 t2 HI) as T.
-  rewrite H in T. destruct T as (HI' & E1 & _ & E3). unfold wb_okW. rewrite E1, E3. auto.
+  intros (HI & HW & Ho) H. destruct (N.eq_dec (wwidth b) 0) as [Ez|Enz].
+  - unfold wb_add_text in H. bind_inv H r Hr. injection H as <-.
+    apply (ZI_InvP b Ez Ho) in HI.
+    pose proof (add_chars_z _ _ _ _ _ _ _ HI Hr) as HI'.
+    pose proof HI' as ((HW' & Ho' & _) & _).
+    split; [apply ZI_InvP; assumption|]. split; [lia|exact Ho'].
+  - assert (HInv : Inv b) by (apply Inv_InvP; split; [lia|exact HI]).
+    pose proof (wb_add_text_total b s m t1 t2 HInv) as T. rewrite H in T.
+    destruct T as (HI' & E1 & _ & E3). apply Inv_InvP in HI'. destruct HI' as [_ HI'].
+    unfold wb_okW. rewrite E1, E3. auto.
 Qed.
 
 Lemma wb_into_lines_okW W b ls :
   wb_okW W b -> wb_into_lines b = Ok ls -> forall l, In l ls -> tl_width_raw l <= W.
 Proof.
-  intros (HI & HW & Ho) H l Hl. pose proof (wb_into_lines_total b HI) as T.
-  rewrite H in T. destruct (T l Hl) as [_ T2]. specialize (T2 Ho). lia.
+  intros (HI & HW & Ho) H l Hl. destruct (N.eq_dec (wwidth b) 0) as [Ez|Enz].
+  - apply (ZI_InvP b Ez Ho) in HI. rewrite (wb_into_lines_z _ _ HI H l Hl). lia.
+  - assert (HInv : Inv b) by (apply Inv_InvP; split; [lia|exact HI]).
+    pose proof (wb_into_lines_total b HInv) as T.
+    rewrite H in T. destruct (T l Hl) as [_ T2]. specialize (T2 Ho). lia.
 Qed.
 
 Lemma take_frags_okW W b b1 frags :
   wb_okW W b -> take_trailing_fragments b = (b1, frags) -> wb_okW W b1 /\ vw frags = 0.
 Proof.
-  intros (HI & HW & Ho) H. destruct (take_trailing_fragments_Inv b HI) as (A & (c1 & _ & c3) & C).
-  rewrite H in *. cbn [fst snd] in *. split.
-  - unfold wb_okW. rewrite c1, c3. auto.
-  - apply frags_vw, C.
+  intros ((A & B & C & D & E) & HW & Ho) H. unfold take_trailing_fragments in H.
+  destruct (word_is_empty (wword b)) eqn:Ewe; injection H as <- <-.
+  - pose proof (word_is_empty_vw _ Ewe) as Hv. split; [|exact Hv].
+    split; [|prj; auto]. unfold InvP, word_width in *. prj.
+    split; [exact A|]. split; [exact B|]. split; [rewrite C, Hv; reflexivity|].
+    split; [exact D|constructor].
+  - split; [|reflexivity]. split; [|auto]. unfold InvP. auto.
 Qed.
 
 Lemma wb_add_frag_okW W b n : wb_okW W b -> wb_okW W (wb_add_element b (Frag n)).
 Proof.
-  intros (HI & HW & Ho). destruct (wb_add_frag_Inv b n HI) as (A & c1 & _ & c3).
-  unfold wb_okW. rewrite c1, c3. auto.
+  intros ((A & B & C & D & E) & HW & Ho). cbn [wb_add_element].
+  split; [|prj; auto]. unfold InvP, word_width in *. prj.
+  split; [exact A|]. split; [exact B|]. split.
+  { rewrite vw_app, vw_cons, vw_nil. cbn [elem_text]. rewrite swidth_nil. lia. }
+  split; [exact D|].
+  unfold elems_have_width in *. apply Forall_app. split; [exact E|].
+  constructor; [constructor|constructor].
 Qed.
 
-Lemma wb_new_okW W ww pad : 1 <= ww -> ww <= W -> wb_okW W (wb_new ww pad false).
-Proof. intros H1 H2. split; [apply wb_new_Inv, H1|]. cbn. auto. Qed.
-
+Lemma wb_new_okW W ww pad : ww <= W -> wb_okW W (wb_new ww pad false).
+Proof.
+  intros H. unfold wb_okW, InvP, wb_new. prj. split; [|auto].
+  split; [apply line_ok_new|]. split; [intros l []|]. split; [reflexivity|].
+  split; [lia|constructor].
+Qed.
 (* ================================================================== *)
 (* 3. Sub-renderer layer                                                *)
 (* ================================================================== *)
 
 Definition sub_ok (s : subr) : Prop :=
-  1 <= swidth_ s /\ o_allow_overflow (sopts s) = false /\
+  o_allow_overflow (sopts s) = false /\
   (forall r, In r (slines s) -> rline_width r <= swidth_ s) /\
   vw (pending_frags s) = 0 /\
   (forall w, wrapping s = Some w -> wb_okW (swidth_ s) w).
 
 Lemma sub_ok_mk s :
-  1 <= swidth_ s -> o_allow_overflow (sopts s) = false ->
+  o_allow_overflow (sopts s) = false ->
   (forall r, In r (slines s) -> rline_width r <= swidth_ s) ->
   vw (pending_frags s) = 0 ->
   (forall w, wrapping s = Some w -> wb_okW (swidth_ s) w) -> sub_ok s.
@@ -314,10 +611,10 @@ Qed.
 
 Lemma add_line_ok s l : sub_ok s -> rline_width l <= swidth_ s -> sub_ok (add_line s l).
 Proof.
-  intros (H1 & H2 & H3 & H4 & H5) Hl.
+  intros (H2 & H3 & H4 & H5) Hl.
   destruct (add_line_same s l) as (a & b & c).
   destruct (add_line_lines s l H4) as (l' & El & Ew & Ep).
-  unfold sub_ok. rewrite a, b, c, El. split; [exact H1|]. split; [exact H2|].
+  unfold sub_ok. rewrite a, b, c, El. split; [exact H2|].
   split; [|split; [exact Ep|exact H5]].
   intros r Hr. apply in_app_or in Hr. destruct Hr as [Hr|[<-|[]]]; [auto|lia].
 Qed.
@@ -346,14 +643,14 @@ Proof.
   intros Hs H. unfold flush_wrapping in H. destruct (wrapping s) as [w|] eqn:Ew.
   - destruct (take_trailing_fragments w) as [w1 frags] eqn:Et.
     bind_inv H ls Hls. ok_inv H.
-    pose proof Hs as (H1 & H2 & H3 & H4 & H5).
+    pose proof Hs as (H2 & H3 & H4 & H5).
     destruct (take_frags_okW _ _ _ _ (H5 w Ew) Et) as [Hw1 Hfr].
     assert (Hs0 : sub_ok (set_wrapping s None)).
     { apply sub_ok_mk; sprj; auto. intros ? [=]. }
     destruct (extend_lines_ok (map RText ls) _ Hs0) as (A & (B1 & B2) & C).
     { intros l Hl. apply in_map_iff in Hl. destruct Hl as (tl & <- & Htl). sprj.
       cbn [rline_width]. eapply wb_into_lines_okW; eassumption. }
-    sprj. destruct A as (A1 & A2 & A3 & A4 & A5).
+    sprj. destruct A as (A2 & A3 & A4 & A5).
     split; [|split; [split; sprj; auto|sprj; exact C]].
     apply sub_ok_mk; sprj; auto. rewrite vw_app. lia.
   - ok_inv H. split; [exact Hs|]. split; [apply same_refl|exact Ew].
@@ -434,14 +731,14 @@ Qed.
 (* ---- inline text ---- *)
 Lemma get_wrapping_ok s : sub_ok s -> wb_okW (swidth_ s) (get_wrapping s).
 Proof.
-  intros (H1 & H2 & H3 & H4 & H5). unfold get_wrapping. destruct (wrapping s) as [w|] eqn:Ew.
+  intros (H2 & H3 & H4 & H5). unfold get_wrapping. destruct (wrapping s) as [w|] eqn:Ew.
   - apply H5. reflexivity.
-  - rewrite H2. apply wb_new_okW; destruct (wrap_width (sopts s)); lia.
+  - rewrite H2. apply wb_new_okW. destruct (wrap_width (sopts s)); lia.
 Qed.
 
 Lemma set_wrapping_ok s w : sub_ok s -> wb_okW (swidth_ s) w -> sub_ok (set_wrapping s (Some w)).
 Proof.
-  intros (H1 & H2 & H3 & H4 & H5) Hw. apply sub_ok_mk; sprj; auto.
+  intros (H2 & H3 & H4 & H5) Hw. apply sub_ok_mk; sprj; auto.
   intros w' [= <-]. exact Hw.
 Qed.
 
@@ -548,9 +845,9 @@ Proof.
 Qed.
 
 Lemma new_sub_renderer_ok s w :
-  o_allow_overflow (sopts s) = false -> 1 <= w -> sub_ok (new_sub_renderer s w).
+  o_allow_overflow (sopts s) = false -> sub_ok (new_sub_renderer s w).
 Proof.
-  intros Ho Hw. unfold new_sub_renderer, sub_new. apply sub_ok_mk; sprj; auto;
+  intros Ho. unfold new_sub_renderer, sub_new. apply sub_ok_mk; sprj; auto;
     [intros r []|intros ? [=]].
 Qed.
 (* ================================================================== *)
@@ -561,7 +858,7 @@ Lemma sub_into_lines_ok s ls :
   sub_ok s -> sub_into_lines s = Ok ls -> forall r, In r ls -> rline_width r <= swidth_ s.
 Proof.
   intros Hs H. unfold sub_into_lines in H. bind_inv H s1 H1. ok_inv H.
-  destruct (flush_wrapping_ok _ _ Hs H1) as ((_ & _ & A & _) & (B & _) & _).
+  destruct (flush_wrapping_ok _ _ Hs H1) as ((_ & A & _) & (B & _) & _).
   intros r Hr. rewrite <- B. auto.
 Qed.
 
@@ -843,7 +1140,7 @@ Proof.
   { unfold next0. rewrite length_border_new. lia. }
   set (lastl := olast (slines s1)) in H.
   assert (Hlast : forall pb pt, lastl = Some (RLine pb pt) -> N.of_nat (length pb) <= B).
-  { intros pb pt E. apply olast_In in E. destruct A as (_ & _ & A3 & _).
+  { intros pb pt E. apply olast_In in E. destruct A as (_ & A3 & _).
     specialize (A3 _ E). exact A3. }
   (* the borders after join_cols *)
   remember (match lastl with
@@ -884,7 +1181,7 @@ Proof.
                  | _ => slines s1
                  end).
   assert (Hs2 : sub_ok (set_lines s1 lines1 (pending_frags s1))).
-  { destruct A as (A1 & A2 & A3 & A4 & A5). apply sub_ok_mk; sprj; auto.
+  { destruct A as (A2 & A3 & A4 & A5). apply sub_ok_mk; sprj; auto.
     intros r0 Hin. unfold lines1 in Hin.
     destruct lastl as [[tl0|pb0 pt]|]; auto. destruct prev3 as [pb|]; auto.
     apply in_replace_last in Hin. destruct Hin as [Hin| ->]; auto. }
@@ -985,23 +1282,22 @@ Proof.
 Qed.
 
 Lemma fl_strings_ok : forall strs s wl pos,
-  sub_ok s -> o_wrap_links (sopts s) = true ->
+  sub_ok s -> 1 <= swidth_ s -> o_wrap_links (sopts s) = true ->
   Forall (fun st => chars_le (swidth_ s) (fst st)) strs ->
   tl_width_raw wl = pos -> pos <= swidth_ s ->
   let '(s1, wl1) := fl_strings s strs wl pos in
   sub_ok s1 /\ same s s1 /\ tl_width_raw wl1 <= swidth_ s.
 Proof.
-  induction strs as [|[str tg] strs IH]; intros s wl pos Hs Hwrap Hc Hpos Hle; cbn [fl_strings].
+  induction strs as [|[str tg] strs IH]; intros s wl pos Hs Hs1 Hwrap Hc Hpos Hle; cbn [fl_strings].
   - split; [exact Hs|]. split; [apply same_refl|lia].
   - inversion Hc as [|? ? Hc1 Hc2]; subst. cbn [fst] in Hc1.
-    pose proof Hs as (Hs1 & _).
     rewrite Hwrap. cbn [andb].
     destruct (N.ltb_spec (swidth_ s) (tl_width_raw wl + swidth (nl_to_space str))) as [Hov|Hfit].
     + pose proof (fl_chars_ok [ADefault] (nl_to_space str) s [] wl (tl_width_raw wl) Hs
                     (chars_le_nl _ _ Hs1 Hc1)) as F.
       destruct (fl_chars s [ADefault] (nl_to_space str) [] wl (tl_width_raw wl)) as [[[s1 buf] wl1] pos1].
       destruct F as (A & [B1 B2] & C & D); [rewrite swidth_nil; lia|exact Hle|].
-      specialize (IH s1 (tl_push_str wl1 buf [ADefault]) pos1 A).
+      specialize (IH s1 (tl_push_str wl1 buf [ADefault]) pos1 A ltac:(rewrite B1; exact Hs1)).
       destruct (fl_strings s1 strs (tl_push_str wl1 buf [ADefault]) pos1) as [s2 wl2].
       destruct IH as (E & F & G).
       * congruence.
@@ -1014,19 +1310,20 @@ Proof.
 Qed.
 
 Lemma fmt_links_ok : forall links s,
-  sub_ok s -> o_wrap_links (sopts s) = true ->
+  sub_ok s -> 1 <= swidth_ s -> o_wrap_links (sopts s) = true ->
   Forall (fun l => Forall (fun st => chars_le (swidth_ s) (fst st)) (tl_tagged_strings l)) links ->
   sub_ok (fmt_links s links) /\ same s (fmt_links s links).
 Proof.
-  induction links as [|l links IH]; intros s Hs Hwrap Hl; cbn [fmt_links].
+  induction links as [|l links IH]; intros s Hs Hs1 Hwrap Hl; cbn [fmt_links].
   - split; [exact Hs|apply same_refl].
   - inversion Hl as [|? ? Hl1 Hl2]; subst.
-    pose proof (fl_strings_ok (tl_tagged_strings l) s tl_new 0 Hs Hwrap Hl1 raw_new) as F.
+    pose proof (fl_strings_ok (tl_tagged_strings l) s tl_new 0 Hs Hs1 Hwrap Hl1 raw_new) as F.
     destruct (fl_strings s (tl_tagged_strings l) tl_new 0) as [s1 wl].
-    destruct F as (A & [B1 B2] & C); [destruct Hs; lia|].
+    destruct F as (A & [B1 B2] & C); [lia|].
     destruct (add_line_same' s1 (RText wl)) as [a b].
     destruct (IH (add_line s1 (RText wl))) as [D E].
     + apply add_line_ok; [exact A|]. cbn [rline_width]. lia.
+    + rewrite a, B1. exact Hs1.
     + congruence.
     + rewrite a, B1. exact Hl2.
     + split; [exact D|]. eapply same_trans; [|exact E]. split; congruence.
@@ -1042,6 +1339,11 @@ Qed.
 Definition ol_prefix_monotone (d : deco) : Prop :=
   forall a i b, (a <= i <= b)%Z ->
     swidth (d_ol_prefix d i) <= N.max (swidth (d_ol_prefix d a)) (swidth (d_ol_prefix d b)).
+
+(* ... and, because the numbering saturates at i64_max while the last measured number is
+   then i64_max - 1: the prefix of i64_max is no wider than that of i64_max - 1 *)
+Definition ol_prefix_sat (d : deco) : Prop :=
+  swidth (d_ol_prefix d i64_max) <= swidth (d_ol_prefix d (i64_max - 1)).
 
 Lemma ascii_text lb l : swidth (of_asciil lb l) = N.of_nat (length l).
 Proof. unfold of_asciil. apply swidth_map_w1. reflexivity. Qed.
@@ -1131,6 +1433,13 @@ Proof. exact (decimal_ol_prefix_monotone (d_ol_prefix rich_deco) (fun _ => eq_re
 
 Lemma ol_prefix_monotone_trivial : ol_prefix_monotone trivial_deco.
 Proof. intros a i b _. cbn. lia. Qed.
+
+Lemma ol_prefix_sat_plain : ol_prefix_sat plain_deco.
+Proof. unfold ol_prefix_sat. vm_compute. discriminate. Qed.
+Lemma ol_prefix_sat_rich : ol_prefix_sat rich_deco.
+Proof. unfold ol_prefix_sat. vm_compute. discriminate. Qed.
+Lemma ol_prefix_sat_trivial : ol_prefix_sat trivial_deco.
+Proof. unfold ol_prefix_sat. vm_compute. discriminate. Qed.
 
 (* padding to a number of characters / to a display width *)
 Lemma swidth_pad_chars s n :
@@ -1304,63 +1613,29 @@ Proof.
     [reflexivity|]. injection E as E1 _ _. congruence.
 Qed.
 
-Definition fits (avail : option N) (p m : N) : bool :=
-  (1 <=? m) || match avail with Some a => p <? a | None => false end.
-Definition sub_avail (avail : option N) (p : N) : option N :=
-  match avail with Some a => Some (a - p) | None => None end.
-
 Section RenderLayer.
   Variable d : deco.
   Variable mw : N.
   Variable fn : bool.     (* footnotes are on: link targets are checked *)
   Variable W : N.         (* the bound on the width of link-target characters *)
   Hypothesis Hd : ol_prefix_monotone d.
+  Hypothesis Hsat : ol_prefix_sat d.
 
   (* The decidable side condition on the tree (see the header comment of the file). *)
-  Fixpoint tree_ok (avail : option N) (n : rnode) {struct n} : bool :=
+  Fixpoint tree_ok (n : rnode) {struct n} : bool :=
     match rn_info n with
     | IText _ | IImg _ _ | IBreak | IFragStart _ => true
     | IContainer cs | IEm cs | IStrong cs | IStrikeout cs | ICode cs | IBlock cs | IListItem cs
-    | IDiv cs | IDl cs | IDt cs | ISup cs => forallb (tree_ok avail) cs
+    | IDiv cs | IDl cs | IDt cs | ISup cs | IHeader _ cs | IBlockQuote cs | IUl cs | IDd cs =>
+      forallb tree_ok cs
     | ILink href cs =>
-      (negb fn || forallb (fun c => cw0 c <=? W) href) && forallb (tree_ok avail) cs
-    | IHeader _ cs =>
-      match est_node d mw n with
-      | Ok sz => fits avail (e_prefix sz) (e_min sz - e_prefix sz) &&
-                 forallb (tree_ok (sub_avail avail (e_prefix sz))) cs
-      | _ => true
-      end
-    | IBlockQuote cs =>
-      let plen := swidth (d_quote_prefix d) in
-      match est_node d mw n with
-      | Ok sz => fits avail plen (e_min sz - plen) && forallb (tree_ok (sub_avail avail plen)) cs
-      | _ => true
-      end
-    | IUl cs =>
-      let plen := swidth (d_ul_prefix d) in
-      match est_node d mw n with
-      | Ok sz => fits avail plen (e_min sz - plen) && forallb (tree_ok (sub_avail avail plen)) cs
-      | _ => true
-      end
-    | IOl start cs =>
-      let nn := Z.of_nat (length cs) in
-      let max_number := isat64 (isat64 (start + nn) - 1) in
-      let pw := N.max (swidth (d_ol_prefix d start)) (swidth (d_ol_prefix d max_number)) in
-      ((i64_min <=? start)%Z && (start + nn <=? i64_max)%Z) &&
-      match est_node d mw n with
-      | Ok sz => fits avail pw (e_min sz - e_prefix sz) && forallb (tree_ok (sub_avail avail pw)) cs
-      | _ => true
-      end
-    | IDd cs =>
-      match est_node d mw n with
-      | Ok sz => fits avail 2 (e_min sz - 2) && forallb (tree_ok (sub_avail avail 2)) cs
-      | _ => true
-      end
+      (negb fn || forallb (fun c => cw0 c <=? W) href) && forallb tree_ok cs
+    | IOl start cs => (i64_min <=? start)%Z && forallb tree_ok cs
     | ITable rows _ =>
       forallb (fun r => match r with
                         | RRow cells _ =>
                           forallb (fun c => match c with
-                                            | RCell _ k _ => forallb (tree_ok (Some 1)) k
+                                            | RCell _ k _ => forallb tree_ok k
                                             end) cells
                         end) rows
     | ITableBody _ | ITableRow _ | ITableCell _ => true
@@ -1376,13 +1651,6 @@ Section RenderLayer.
   Proof. intros H. split; [exact H|reflexivity]. Qed.
   Lemma R_trans a b c : R a b -> R b c -> R a c.
   Proof. intros [A1 A2] [B1 B2]. split; [exact B1|congruence]. Qed.
-
-  (* avail, when known, is a lower bound of the width of the top sub-renderer *)
-  Definition avail_ok (avail : option N) (st : rstate) : Prop :=
-    forall a, avail = Some a -> exists w, topw st = Some w /\ a <= w.
-
-  Lemma avail_ok_R avail a b : avail_ok avail a -> R a b -> avail_ok avail b.
-  Proof. intros H [_ E] x Hx. rewrite (shape_topw _ _ E). apply H, Hx. Qed.
 
   Definition keepsW (a : N) (f : subr -> res subr) : Prop :=
     forall s s', sub_ok s -> swidth_ s = a -> f s = Ok s' -> sub_ok s' /\ same s s'.
@@ -1475,19 +1743,17 @@ Section RenderLayer.
 
   (* ---- the per-node property and the fold over children ---- *)
   Definition node_ok (n : rnode) : Prop :=
-    forall avail st st', tree_ok avail n = true -> st_inv st -> avail_ok avail st ->
-                         render_node d mw n st = Ok st' -> R st st'.
+    forall st st', tree_ok n = true -> st_inv st -> render_node d mw n st = Ok st' -> R st st'.
 
-  Lemma render_kids_R avail cs st st' :
-    Forall node_ok cs -> forallb (tree_ok avail) cs = true -> st_inv st -> avail_ok avail st ->
+  Lemma render_kids_R cs st st' :
+    Forall node_ok cs -> forallb tree_ok cs = true -> st_inv st ->
     fold_left (fun acc c => do s <- acc; render_node d mw c s) cs (Ok st) = Ok st' -> R st st'.
   Proof.
-    intros HF Ht Hi Ha H.
+    intros HF Ht Hi H.
     apply (fold_bind_inv (fun a => R st a) (render_node d mw) cs) with (a := st); [|apply R_refl, Hi|exact H].
     intros c Hc a a' Ra Hr. eapply R_trans; [exact Ra|].
     rewrite Forall_forall in HF. rewrite forallb_forall in Ht.
-    apply (HF c Hc avail a a' (Ht c Hc) (proj1 Ra)); [|exact Hr].
-    eapply avail_ok_R; eassumption.
+    apply (HF c Hc a a' (Ht c Hc) (proj1 Ra) Hr).
   Qed.
 
   (* ---- nested sub-renderers ---- *)
@@ -1504,12 +1770,10 @@ Section RenderLayer.
   Qed.
 
   Lemma push_inv st tp w :
-    st_inv st -> top st = Ok tp -> 1 <= w ->
-    st_inv (push_sub st (new_sub_renderer tp w)) /\
-    topw (push_sub st (new_sub_renderer tp w)) = Some w.
+    st_inv st -> top st = Ok tp -> st_inv (push_sub st (new_sub_renderer tp w)).
   Proof.
-    intros Hi Ht Hw. pose proof (top_sub_ok _ _ Hi Ht) as (_ & Ho & _).
-    destruct Hi as [Hi1 Hi2]. split; [split|reflexivity].
+    intros Hi Ht. pose proof (top_sub_ok _ _ Hi Ht) as (Ho & _).
+    destruct Hi as [Hi1 Hi2]. split.
     - cbn [push_sub stack]. constructor; [apply new_sub_renderer_ok; assumption|exact Hi1].
     - exact Hi2.
   Qed.
@@ -1533,40 +1797,29 @@ Section RenderLayer.
 
   Lemma width_minus_ok tp p m w :
     o_allow_overflow (sopts tp) = false -> width_minus tp p m = Ok w ->
-    w = swidth_ tp - p /\ m <= w.
+    w = swidth_ tp - p /\ m <= w /\ p <= swidth_ tp.
   Proof.
     unfold width_minus. intros Ho H. rewrite Ho in H. cbn [negb] in H. rewrite andb_true_r in H.
-    destruct (N.ltb_spec (swidth_ tp - p) m); [discriminate|]. ok_inv H. lia.
+    destruct (N.ltb_spec (swidth_ tp - p) m); [discriminate|].
+    destruct (N.ltb_spec (swidth_ tp) p); [discriminate|]. cbn [orb] in H. ok_inv H. lia.
   Qed.
 
   (* a prefixed block: width_minus, push, body, pop; afterwards the child can be appended
      with any prefixes of at most p columns *)
-  Lemma prefixed_scope avail st tp p m w st2 sub st3 :
-    st_inv st -> avail_ok avail st -> top st = Ok tp -> width_minus tp p m = Ok w ->
-    fits avail p m = true ->
+  Lemma prefixed_scope st tp p m w st2 sub st3 :
+    st_inv st -> top st = Ok tp -> width_minus tp p m = Ok w ->
     (st_inv (push_sub st (new_sub_renderer tp w)) ->
-     avail_ok (sub_avail avail p) (push_sub st (new_sub_renderer tp w)) ->
      R (push_sub st (new_sub_renderer tp w)) st2) ->
     pop_sub st2 = Ok (sub, st3) ->
     R st st3 /\
     forall first rest, swidth first <= p -> swidth rest <= p ->
       keepsW (swidth_ tp) (fun s => append_subrender s sub first rest).
   Proof.
-    intros Hi Ha Ht Hw Hf Hbody Hp.
-    pose proof (top_sub_ok _ _ Hi Ht) as Htp. pose proof Htp as (_ & Ho & _).
-    destruct (width_minus_ok _ _ _ _ Ho Hw) as [Ew Hm].
-    pose proof (top_topw _ _ Ht) as Etw.
-    assert (Hfit : 1 <= m \/ p < swidth_ tp).
-    { unfold fits in Hf. apply orb_true_iff in Hf. destruct Hf as [Hf|Hf]; [left; lia|].
-      destruct avail as [a|]; [|discriminate]. destruct (Ha a eq_refl) as (w0 & Ea & Hle).
-      rewrite Etw in Ea. injection Ea as <-. right. lia. }
-    assert (Hw1 : 1 <= w) by lia.
-    destruct (push_inv st tp w Hi Ht Hw1) as [Hi1 Et1].
-    assert (Ha1 : avail_ok (sub_avail avail p) (push_sub st (new_sub_renderer tp w))).
-    { intros a Ea. rewrite Et1. destruct avail as [a0|]; [|discriminate]. cbn [sub_avail] in Ea.
-      injection Ea as <-. destruct (Ha a0 eq_refl) as (w0 & Ea0 & Hle).
-      rewrite Etw in Ea0. injection Ea0 as <-. exists w. split; [reflexivity|lia]. }
-    destruct (sub_scope st tp w st2 sub st3 Hi Ht (Hbody Hi1 Ha1) Hp) as (R3 & Hsub & Esub).
+    intros Hi Ht Hw Hbody Hp.
+    pose proof (top_sub_ok _ _ Hi Ht) as Htp. pose proof Htp as (Ho & _).
+    destruct (width_minus_ok _ _ _ _ Ho Hw) as (Ew & Hm & Hple).
+    pose proof (push_inv st tp w Hi Ht) as Hi1.
+    destruct (sub_scope st tp w st2 sub st3 Hi Ht (Hbody Hi1) Hp) as (R3 & Hsub & Esub).
     split; [exact R3|].
     intros first rest H1 H2 s s' Hs Es Happ.
     eapply (append_subrender_ok s sub first rest p); try eassumption. lia.
@@ -1578,20 +1831,17 @@ Section RenderLayer.
     bind_inv H sz Hsz; bind_inv H ap Hap; destruct ap as [st1 ps];
     pose proof (apply_style_R _ _ _ _ Hinv Hap) as R1.
 
-  Lemma R_avail avail st a : avail_ok avail st -> R st a -> st_inv a /\ avail_ok avail a.
-  Proof. intros Ha Ra. split; [exact (proj1 Ra)|eapply avail_ok_R; eassumption]. Qed.
-
-  Lemma wrap_case (f1 f2 : subr -> res subr) avail cs ps st1 st' :
-    keeps f1 -> keeps f2 -> Forall node_ok cs -> forallb (tree_ok avail) cs = true ->
-    st_inv st1 -> avail_ok avail st1 ->
+  Lemma wrap_case (f1 f2 : subr -> res subr) cs ps st1 st' :
+    keeps f1 -> keeps f2 -> Forall node_ok cs -> forallb tree_ok cs = true ->
+    st_inv st1 ->
     (do a <- with_top st1 f1;
      do b <- fold_left (fun acc c => do s <- acc; render_node d mw c s) cs (Ok a);
      do c <- with_top b f2; unwind d ps c) = Ok st' -> R st1 st'.
   Proof.
-    intros K1 K2 HF Ht Hi Ha H.
+    intros K1 K2 HF Ht Hi H.
     bind_inv H a H1. bind_inv H b H2. bind_inv H c H3.
-    pose proof (with_top_R _ _ _ K1 Hi H1) as Ra. destruct (R_avail _ _ _ Ha Ra) as [Ia Aa].
-    pose proof (render_kids_R _ _ _ _ HF Ht Ia Aa H2) as Rb.
+    pose proof (with_top_R _ _ _ K1 Hi H1) as Ra.
+    pose proof (render_kids_R _ _ _ HF Ht (proj1 Ra) H2) as Rb.
     pose proof (with_top_R _ _ _ K2 (proj1 Rb) H3) as Rc.
     pose proof (unwind_R _ _ _ (proj1 Rc) H) as Rd.
     eapply R_trans; [exact Ra|]. eapply R_trans; [exact Rb|]. eapply R_trans; eassumption.
@@ -1621,42 +1871,50 @@ Section RenderLayer.
                                                     (pad_chars [] pw));
     Ok (s4, isat64 (i + 1)).
 
-  Lemma ol_items_R avail sz pw start0 nn : forall items s i r,
-    Forall node_ok items -> forallb (tree_ok (sub_avail avail pw)) items = true ->
-    fits avail pw (e_min sz - e_prefix sz) = true ->
-    (forall i', (start0 <= i' < start0 + nn)%Z -> swidth (d_ol_prefix d i') <= pw) ->
-    (start0 <= i)%Z -> (i + Z.of_nat (length items) <= start0 + nn)%Z ->
-    (i64_min <= start0)%Z -> (start0 + nn <= i64_max)%Z ->
-    st_inv s -> avail_ok avail s ->
-    fold_left (fun acc item => do si <- acc; ol_step sz pw item si) items (Ok (s, i)) = Ok r ->
+  (* the number of the k-th item (k = 0, 1, ...) of a list starting at start0 >= i64_min:
+     isat64 (i + 1) iterated *)
+  Definition ol_idx (start0 : Z) (k : nat) : Z :=
+    match k with O => start0 | S _ => Z.min (start0 + Z.of_nat k) i64_max end.
+
+  Lemma ol_idx_succ start0 k :
+    (i64_min <= start0)%Z -> isat64 (ol_idx start0 k + 1) = ol_idx start0 (S k).
+  Proof.
+    intros H. unfold isat64, ol_idx, i64_min, i64_max in *. destruct k; lia.
+  Qed.
+
+  Lemma ol_items_R sz pw start0 (n : nat) : forall items k s r,
+    Forall node_ok items -> forallb tree_ok items = true ->
+    (forall j, (j < n)%nat -> swidth (d_ol_prefix d (ol_idx start0 j)) <= pw) ->
+    (k + length items = n)%nat -> (i64_min <= start0)%Z ->
+    st_inv s ->
+    fold_left (fun acc item => do si <- acc; ol_step sz pw item si) items
+              (Ok (s, ol_idx start0 k)) = Ok r ->
     R s (fst r).
   Proof.
-    induction items as [|item items IH]; intros s i r HF Ht Hf Hlen Hi1 Hi2 Hmin Hmax Hi Ha H.
+    induction items as [|item items IH]; intros k s r HF Ht Hlen Hk Hmin Hi H.
     - cbn [fold_left] in H. ok_inv H. apply R_refl, Hi.
     - apply fold_bind_cons in H. destruct H as ([s4 i'] & Hstep & H).
-      inversion HF as [|? ? HF1 HF2]; subst.
+      pose proof (Forall_inv HF) as HF1. pose proof (Forall_inv_tail HF) as HF2.
       cbn [forallb] in Ht. apply andb_true_iff in Ht. destruct Ht as [Ht1 Ht2].
-      cbn [length] in Hi2.
+      cbn [length] in Hk.
       unfold ol_step in Hstep.
       bind_inv Hstep iw Hiw. unfold usub in Hiw.
       destruct (e_prefix sz <=? e_min sz); [|discriminate]. ok_inv Hiw.
       bind_inv Hstep tp Htp. bind_inv Hstep w Hw. bind_inv Hstep s2 Hs2. bind_inv Hstep pp Hpp.
       destruct pp as [sub s3]. bind_inv Hstep s4' H4. injection Hstep as -> <-.
-      destruct (prefixed_scope _ _ _ _ _ _ s2 sub s3 Hi Ha Htp Hw Hf) as [R3 Kapp]; [|exact Hpp|].
-      { intros Ip Ap. eapply HF1; [exact Ht1|exact Ip|exact Ap|exact Hs2]. }
+      destruct (prefixed_scope _ _ _ _ _ s2 sub s3 Hi Htp Hw) as [R3 Kapp]; [|exact Hpp|].
+      { intros Ip. eapply HF1; [exact Ht1|exact Ip|exact Hs2]. }
       assert (R4 : R s3 s4).
       { eapply (with_top_RW (swidth_ tp)); [|
           rewrite (shape_topw _ _ (proj2 R3)); apply top_topw, Htp|exact (proj1 R3)|exact H4].
         apply Kapp.
-        - rewrite swidth_pad_width. specialize (Hlen i ltac:(lia)). lia.
+        - rewrite swidth_pad_width. specialize (Hlen k ltac:(lia)). lia.
         - rewrite swidth_pad_chars, swidth_nil. cbn [length]. lia. }
       assert (R04 : R s s4) by (eapply R_trans; eassumption).
       eapply R_trans; [exact R04|].
-      assert (Ei : isat64 (i + 1) = (i + 1)%Z) by (unfold isat64; lia).
-      rewrite Ei in H.
-      eapply (IH s4 (i + 1)%Z r); try eassumption; try lia.
-      + exact (proj1 R04).
-      + eapply avail_ok_R; eassumption.
+      rewrite (ol_idx_succ _ _ Hmin) in H.
+      eapply (IH (S k) s4 r); try eassumption; try lia.
+      exact (proj1 R04).
   Qed.
 
   (* ---- tables ---- *)
@@ -1678,18 +1936,17 @@ Section RenderLayer.
     end.
 
   Definition cell_tree_ok (c : rcell) : bool :=
-    match c with RCell _ k _ => forallb (tree_ok (Some 1)) k end.
+    match c with RCell _ k _ => forallb tree_ok k end.
 
   Lemma cells_loop_ok : forall cells wsl s2 subs r,
     Forall (fun c => Forall node_ok (cell_content c)) cells ->
     forallb cell_tree_ok cells = true ->
-    Forall (fun w => 1 <= w) (somes wsl) ->
     st_inv s2 -> Forall sub_ok subs ->
     cells_loop cells wsl s2 subs = Ok r ->
     R s2 (fst r) /\ Forall sub_ok (snd r) /\
     exists used rest, map swidth_ (snd r) = map swidth_ subs ++ used /\ somes wsl = used ++ rest.
   Proof.
-    induction cells as [|[n content csty] cells IH]; intros wsl s2 subs r HF Ht Hw Hi Hs H;
+    induction cells as [|[n content csty] cells IH]; intros wsl s2 subs r HF Ht Hi Hs H;
       cbn [cells_loop] in H.
     - ok_inv H. cbn [fst snd]. split; [apply R_refl, Hi|]. split; [exact Hs|].
       exists [], (somes wsl). rewrite app_nil_r. auto.
@@ -1698,25 +1955,21 @@ Section RenderLayer.
       destruct wsl as [|[w|] wsl].
       + ok_inv H. cbn [fst snd]. split; [apply R_refl, Hi|]. split; [exact Hs|].
         exists [], []. rewrite app_nil_r. auto.
-      + cbn [somes] in Hw. inversion Hw as [|? ? Hw1 Hw2]; subst.
-        bind_inv H tp2 Htp. bind_inv H apc Hap. destruct apc as [s4 pcell].
+      + bind_inv H tp2 Htp. bind_inv H apc Hap. destruct apc as [s4 pcell].
         bind_inv H s5 H5. bind_inv H s6 H6. bind_inv H pp Hpp. destruct pp as [sub s7].
-        destruct (push_inv s2 tp2 w Hi Htp Hw1) as [Ip Etp].
+        pose proof (push_inv s2 tp2 w Hi Htp) as Ip.
         pose proof (apply_style_R _ _ _ _ Ip Hap) as Ra.
-        assert (Rb : R s4 s5).
-        { eapply (render_kids_R (Some 1)); [exact HF1|exact Ht1|exact (proj1 Ra)| |exact H5].
-          intros a [= <-]. exists w. split; [|exact Hw1].
-          rewrite (shape_topw _ _ (proj2 Ra)). exact Etp. }
+        pose proof (render_kids_R _ _ _ HF1 Ht1 (proj1 Ra) H5) as Rb.
         pose proof (unwind_R _ _ _ (proj1 Rb) H6) as Rc.
         destruct (sub_scope s2 tp2 w s6 sub s7 Hi Htp
                     (R_trans _ _ _ Ra (R_trans _ _ _ Rb Rc)) Hpp) as (R7 & Hsub & Esub).
-        destruct (IH wsl s7 (subs ++ [sub]) r HF2 Ht2 Hw2 (proj1 R7))
+        destruct (IH wsl s7 (subs ++ [sub]) r HF2 Ht2 (proj1 R7))
           as (R8 & Hs8 & used & rest & E1 & E2); [|exact H|].
         { apply Forall_app. split; [exact Hs|]. constructor; [exact Hsub|constructor]. }
         split; [eapply R_trans; eassumption|]. split; [exact Hs8|].
         exists (w :: used), rest. rewrite E1, map_app. cbn [map somes].
         rewrite Esub, <- app_assoc. cbn [app]. rewrite E2. auto.
-      + cbn [somes] in Hw. apply (IH wsl s2 subs r HF2 Ht2 Hw Hi Hs H).
+      + cbn [somes]. apply (IH wsl s2 subs r HF2 Ht2 Hi Hs H).
   Qed.
 
   Definition row_body (vr : bool) (col_widths : list N) (r : rrow) (s : rstate) : res rstate :=
@@ -1748,11 +2001,7 @@ Section RenderLayer.
     bind_inv H apr Hap. destruct apr as [s1 prow]. bind_inv H cws Hcws. bind_inv H rr Hrr.
     destruct rr as [s8 subs]. bind_inv H s9 H9.
     pose proof (apply_style_R _ _ _ _ Hi Hap) as R1.
-    assert (Hsome : Forall (fun w => 1 <= w) (somes cws)).
-    { destruct vr.
-      - eapply Forall_impl; [|apply (cell_widths_v _ _ _ _ Hcws)]. intros a [X _]. exact X.
-      - apply (cell_widths_h _ _ _ _ Hcws). }
-    destruct (cells_loop_ok rcells cws s1 [] (s8, subs) HF Ht Hsome (proj1 R1) (Forall_nil _) Hrr)
+    destruct (cells_loop_ok rcells cws s1 [] (s8, subs) HF Ht (proj1 R1) (Forall_nil _) Hrr)
       as (R8 & Hsubs & used & rest & E1 & E2).
     cbn [fst snd map app] in *.
     assert (Htw8 : topw s8 = Some width).
@@ -1783,7 +2032,7 @@ Section RenderLayer.
 
   Lemma node_ok_all : forall n, node_ok n.
   Proof.
-    apply rnode_ind'. intros i sty IH avail st st' Ht Hinv Hav H.
+    apply rnode_ind'. intros i sty IH st st' Ht Hinv H.
     destruct i; cbn [direct_kids] in IH;
       cbn [render_node rn_info rn_style] in H; cbn [tree_ok rn_info] in Ht;
       try discriminate.
@@ -1794,14 +2043,13 @@ Section RenderLayer.
       eapply R_trans; [exact R1|]. eapply R_trans; eassumption.
     - (* IContainer *)
       start H Hinv sz ap st1 ps R1. bind_inv H st2 H2.
-      destruct (R_avail _ _ _ Hav R1) as [I1 A1].
-      pose proof (render_kids_R _ _ _ _ IH Ht I1 A1 H2) as R2.
+      pose proof (render_kids_R _ _ _ IH Ht (proj1 R1) H2) as R2.
       pose proof (unwind_R _ _ _ (proj1 R2) H) as R3.
       eapply R_trans; [exact R1|]. eapply R_trans; eassumption.
     - (* ILink *)
       start H Hinv sz ap st1 ps R1.
       apply andb_true_iff in Ht. destruct Ht as [Hh Ht].
-      destruct (R_avail _ _ _ Hav R1) as [I1 A1].
+      pose proof (proj1 R1) as I1.
       set (st1' := mkrst (stack st1) (links st1 ++ [href])) in H.
       assert (R1' : R st1 st1').
       { split; [|reflexivity]. destruct I1 as [X Y]. split; [exact X|].
@@ -1809,11 +2057,9 @@ Section RenderLayer.
         constructor; [|constructor]. rewrite Hfn in Hh. cbn [negb orb] in Hh.
         unfold chars_le. apply Forall_forall. intros c Hc.
         rewrite forallb_forall in Hh. specialize (Hh c Hc). lia. }
-      destruct (R_avail _ _ _ A1 R1') as [I1' A1'].
       bind_inv H st2 H2. bind_inv H st3 H3. bind_inv H st4 H4. bind_inv H tp H5. bind_inv H st5 H6.
-      pose proof (with_top_R _ _ _ (sub_start_link_keeps d href) I1' H2) as R2.
-      destruct (R_avail _ _ _ A1' R2) as [I2 A2].
-      pose proof (render_kids_R _ _ _ _ IH Ht I2 A2 H3) as R3.
+      pose proof (with_top_R _ _ _ (sub_start_link_keeps d href) (proj1 R1') H2) as R2.
+      pose proof (render_kids_R _ _ _ IH Ht (proj1 R2) H3) as R3.
       pose proof (with_top_R _ _ _ (sub_end_link_keeps d) (proj1 R3) H4) as R4.
       assert (R5 : R st4 st5).
       { destruct (o_footnotes (sopts tp)).
@@ -1823,44 +2069,38 @@ Section RenderLayer.
       eapply R_trans; [exact R1|]. eapply R_trans; [exact R1'|]. eapply R_trans; [exact R2|].
       eapply R_trans; [exact R3|]. eapply R_trans; [exact R4|]. eapply R_trans; eassumption.
     - (* IEm *)
-      start H Hinv sz ap st1 ps R1. destruct (R_avail _ _ _ Hav R1) as [I1 A1].
-      eapply R_trans; [exact R1|].
+      start H Hinv sz ap st1 ps R1. eapply R_trans; [exact R1|].
       eapply (wrap_case (start_emphasis d) (end_emphasis d)); try eassumption;
-        [apply start_emphasis_keeps|apply end_emphasis_keeps].
+        [apply start_emphasis_keeps|apply end_emphasis_keeps|exact (proj1 R1)].
     - (* IStrong *)
-      start H Hinv sz ap st1 ps R1. destruct (R_avail _ _ _ Hav R1) as [I1 A1].
-      eapply R_trans; [exact R1|].
+      start H Hinv sz ap st1 ps R1. eapply R_trans; [exact R1|].
       eapply (wrap_case (start_strong d) (end_strong d)); try eassumption;
-        [apply start_strong_keeps|apply end_strong_keeps].
+        [apply start_strong_keeps|apply end_strong_keeps|exact (proj1 R1)].
     - (* IStrikeout *)
-      start H Hinv sz ap st1 ps R1. destruct (R_avail _ _ _ Hav R1) as [I1 A1].
-      eapply R_trans; [exact R1|].
+      start H Hinv sz ap st1 ps R1. eapply R_trans; [exact R1|].
       eapply (wrap_case (start_strikeout d) (end_strikeout d)); try eassumption;
-        [apply start_strikeout_keeps|apply end_strikeout_keeps].
+        [apply start_strikeout_keeps|apply end_strikeout_keeps|exact (proj1 R1)].
     - (* ICode *)
-      start H Hinv sz ap st1 ps R1. destruct (R_avail _ _ _ Hav R1) as [I1 A1].
-      eapply R_trans; [exact R1|].
+      start H Hinv sz ap st1 ps R1. eapply R_trans; [exact R1|].
       eapply (wrap_case (start_code d) (end_code d)); try eassumption;
-        [apply start_code_keeps|apply end_code_keeps].
+        [apply start_code_keeps|apply end_code_keeps|exact (proj1 R1)].
     - (* IImg *)
       start H Hinv sz ap st1 ps R1. bind_inv H st2 H2.
       pose proof (with_top_R _ _ _ (add_image_keeps d src title) (proj1 R1) H2) as R2.
       pose proof (unwind_R _ _ _ (proj1 R2) H) as R3.
       eapply R_trans; [exact R1|]. eapply R_trans; eassumption.
     - (* IBlock *)
-      start H Hinv sz ap st1 ps R1. destruct (R_avail _ _ _ Hav R1) as [I1 A1].
-      eapply R_trans; [exact R1|].
+      start H Hinv sz ap st1 ps R1. eapply R_trans; [exact R1|].
       eapply (wrap_case start_block (fun s => Ok (end_block s))); try eassumption;
-        [apply start_block_keeps|apply end_block_pure].
+        [apply start_block_keeps|apply end_block_pure|exact (proj1 R1)].
     - (* IHeader *)
-      start H Hinv sz ap st1 ps R1. destruct (R_avail _ _ _ Hav R1) as [I1 A1].
-      unfold est_of in Hsz. rewrite Hsz in Ht. apply andb_true_iff in Ht. destruct Ht as [Hf Ht].
+      start H Hinv sz ap st1 ps R1. pose proof (proj1 R1) as I1.
       destruct (N.eqb_spec (swidth (d_header_prefix d level)) (e_prefix sz)) as [Ep|];
         cbn [negb] in H; [|discriminate].
       bind_inv H tp Htp. bind_inv H w Hw. bind_inv H st2 H2. bind_inv H pp Hpp.
       destruct pp as [sub st3]. bind_inv H st4 H4. bind_inv H st5 H5. bind_inv H st6 H6.
-      destruct (prefixed_scope _ _ _ _ _ _ st2 sub st3 I1 A1 Htp Hw Hf) as [R3 Kapp]; [|exact Hpp|].
-      { intros Ip Ap. eapply render_kids_R; eassumption. }
+      destruct (prefixed_scope _ _ _ _ _ st2 sub st3 I1 Htp Hw) as [R3 Kapp]; [|exact Hpp|].
+      { intros Ip. eapply render_kids_R; eassumption. }
       pose proof (with_top_R _ _ _ start_block_keeps (proj1 R3) H4) as R4.
       assert (R5 : R st4 st5).
       { eapply (with_top_RW (swidth_ tp)); [|
@@ -1872,19 +2112,18 @@ Section RenderLayer.
       eapply R_trans; [exact R1|]. eapply R_trans; [exact R3|]. eapply R_trans; [exact R4|].
       eapply R_trans; [exact R5|]. eapply R_trans; eassumption.
     - (* IDiv *)
-      start H Hinv sz ap st1 ps R1. destruct (R_avail _ _ _ Hav R1) as [I1 A1].
-      eapply R_trans; [exact R1|].
-      eapply (wrap_case new_line new_line); try eassumption; apply new_line_keeps.
+      start H Hinv sz ap st1 ps R1. eapply R_trans; [exact R1|].
+      eapply (wrap_case new_line new_line); try eassumption;
+        [apply new_line_keeps|apply new_line_keeps|exact (proj1 R1)].
     - (* IBlockQuote *)
-      start H Hinv sz ap st1 ps R1. destruct (R_avail _ _ _ Hav R1) as [I1 A1].
-      unfold est_of in Hsz. rewrite Hsz in Ht. apply andb_true_iff in Ht. destruct Ht as [Hf Ht].
+      start H Hinv sz ap st1 ps R1. pose proof (proj1 R1) as I1.
       destruct (e_prefix sz =? swidth (d_quote_prefix d)); cbn [negb] in H; [|discriminate].
       bind_inv H iw Hiw. unfold usub in Hiw.
       destruct (swidth (d_quote_prefix d) <=? e_min sz); [|discriminate]. ok_inv Hiw.
       bind_inv H tp Htp. bind_inv H w Hw. bind_inv H st2 H2. bind_inv H pp Hpp.
       destruct pp as [sub st3]. bind_inv H st4 H4. bind_inv H st5 H5. bind_inv H st6 H6.
-      destruct (prefixed_scope _ _ _ _ _ _ st2 sub st3 I1 A1 Htp Hw Hf) as [R3 Kapp]; [|exact Hpp|].
-      { intros Ip Ap. eapply render_kids_R; eassumption. }
+      destruct (prefixed_scope _ _ _ _ _ st2 sub st3 I1 Htp Hw) as [R3 Kapp]; [|exact Hpp|].
+      { intros Ip. eapply render_kids_R; eassumption. }
       pose proof (with_top_R _ _ _ start_block_keeps (proj1 R3) H4) as R4.
       assert (R5 : R st4 st5).
       { eapply (with_top_RW (swidth_ tp)); [|
@@ -1896,8 +2135,7 @@ Section RenderLayer.
       eapply R_trans; [exact R1|]. eapply R_trans; [exact R3|]. eapply R_trans; [exact R4|].
       eapply R_trans; [exact R5|]. eapply R_trans; eassumption.
     - (* IUl *)
-      start H Hinv sz ap st1 ps R1. destruct (R_avail _ _ _ Hav R1) as [I1 A1].
-      unfold est_of in Hsz. rewrite Hsz in Ht. apply andb_true_iff in Ht. destruct Ht as [Hf Ht].
+      start H Hinv sz ap st1 ps R1. pose proof (proj1 R1) as I1.
       bind_inv H st2 H2.
       assert (R2 : R st1 st2).
       { revert H2.
@@ -1912,14 +2150,14 @@ Section RenderLayer.
                     with_top s3 (fun t => append_subrender t sub (d_ul_prefix d)
                        (repeat_chr (spacel L_prefix) (N.to_nat (swidth (d_ul_prefix d))))))
                  cs); [|apply R_refl, I1].
-        intros item Hitem a a' Ra Hstep. destruct (R_avail _ _ _ A1 Ra) as [Ia Aa].
+        intros item Hitem a a' Ra Hstep. pose proof (proj1 Ra) as Ia.
         bind_inv Hstep iw Hiw. unfold usub in Hiw.
         destruct (swidth (d_ul_prefix d) <=? e_min sz); [|discriminate]. ok_inv Hiw.
         bind_inv Hstep tp Htp. bind_inv Hstep w Hw. bind_inv Hstep s2 Hs2. bind_inv Hstep pp Hpp.
         destruct pp as [sub s3].
         rewrite Forall_forall in IH. rewrite forallb_forall in Ht.
-        destruct (prefixed_scope _ _ _ _ _ _ s2 sub s3 Ia Aa Htp Hw Hf) as [R3 Kapp]; [|exact Hpp|].
-        { intros Ip Ap. eapply (IH item Hitem); [apply Ht, Hitem|exact Ip|exact Ap|exact Hs2]. }
+        destruct (prefixed_scope _ _ _ _ _ s2 sub s3 Ia Htp Hw) as [R3 Kapp]; [|exact Hpp|].
+        { intros Ip. eapply (IH item Hitem); [apply Ht, Hitem|exact Ip|exact Hs2]. }
         eapply R_trans; [exact Ra|]. eapply R_trans; [exact R3|].
         eapply (with_top_RW (swidth_ tp)); [|
           rewrite (shape_topw _ _ (proj2 R3)); apply top_topw, Htp|exact (proj1 R3)|exact Hstep].
@@ -1928,51 +2166,49 @@ Section RenderLayer.
       pose proof (unwind_R _ _ _ (proj1 R2) H) as R3.
       eapply R_trans; [exact R1|]. eapply R_trans; eassumption.
     - (* IOl *)
-      start H Hinv sz ap st1 ps R1. destruct (R_avail _ _ _ Hav R1) as [I1 A1].
-      unfold est_of in Hsz. rewrite Hsz in Ht.
-      apply andb_true_iff in Ht. destruct Ht as [Hrange Ht].
-      apply andb_true_iff in Ht. destruct Ht as [Hf Ht].
-      apply andb_true_iff in Hrange. destruct Hrange as [Hmin Hmax].
+      start H Hinv sz ap st1 ps R1. pose proof (proj1 R1) as I1.
+      apply andb_true_iff in Ht. destruct Ht as [Hmin Ht].
       bind_inv H r Hr.
-      set (nn := Z.of_nat (length cs)) in *.
-      set (pw := N.max (swidth (d_ol_prefix d start))
-                       (swidth (d_ol_prefix d (isat64 (isat64 (start + nn) - 1))))) in *.
+      set (n := length cs) in *.
+      set (mn := isat64 (isat64 (start + Z.of_nat n) - 1)) in *.
+      set (pw := N.max (swidth (d_ol_prefix d start)) (swidth (d_ol_prefix d mn))) in *.
       assert (Hr' : fold_left (fun acc item => do si <- acc; ol_step sz pw item si) cs
-                              (Ok (st1, start)) = Ok r) by exact Hr.
+                              (Ok (st1, ol_idx start 0)) = Ok r) by exact Hr.
       assert (R2 : R st1 (fst r)).
-      { eapply (ol_items_R avail sz pw start nn cs st1 start r); try eassumption; try lia.
-        intros i' Hi'.
-        assert (Emax : isat64 (isat64 (start + nn) - 1) = (start + nn - 1)%Z)
-          by (unfold isat64; lia).
-        pose proof (Hd start i' (start + nn - 1)%Z ltac:(lia)) as Hm.
-        unfold pw. rewrite Emax. exact Hm. }
+      { eapply (ol_items_R sz pw start n cs 0 st1 r); try eassumption; try lia.
+        intros j Hj.
+        pose proof (Hd start (ol_idx start j) mn) as Hm. unfold ol_prefix_sat in Hsat.
+        assert (Hcases : ol_idx start j = start \/ (start <= ol_idx start j <= mn)%Z \/
+                         (ol_idx start j = i64_max /\ mn = (i64_max - 1)%Z)).
+        { unfold ol_idx, mn, isat64, i64_min, i64_max in *. destruct j; lia. }
+        destruct Hcases as [E|[E|[E1 E2]]].
+        - rewrite E. unfold pw. lia.
+        - specialize (Hm E). unfold pw. exact Hm.
+        - rewrite E1. unfold pw. rewrite E2. lia. }
       pose proof (unwind_R _ _ _ (proj1 R2) H) as R3.
       eapply R_trans; [exact R1|]. eapply R_trans; eassumption.
     - (* IDl *)
-      start H Hinv sz ap st1 ps R1. destruct (R_avail _ _ _ Hav R1) as [I1 A1].
+      start H Hinv sz ap st1 ps R1.
       bind_inv H st2 H2. bind_inv H st3 H3.
-      pose proof (with_top_R _ _ _ start_block_keeps I1 H2) as R2.
-      destruct (R_avail _ _ _ A1 R2) as [I2 A2].
-      pose proof (render_kids_R _ _ _ _ IH Ht I2 A2 H3) as R3.
+      pose proof (with_top_R _ _ _ start_block_keeps (proj1 R1) H2) as R2.
+      pose proof (render_kids_R _ _ _ IH Ht (proj1 R2) H3) as R3.
       pose proof (unwind_R _ _ _ (proj1 R3) H) as R4.
       eapply R_trans; [exact R1|]. eapply R_trans; [exact R2|]. eapply R_trans; eassumption.
     - (* IDt *)
-      start H Hinv sz ap st1 ps R1. destruct (R_avail _ _ _ Hav R1) as [I1 A1].
+      start H Hinv sz ap st1 ps R1.
       bind_inv H st2 H2.
-      pose proof (with_top_R _ _ _ new_line_keeps I1 H2) as R2.
-      destruct (R_avail _ _ _ A1 R2) as [I2 A2].
+      pose proof (with_top_R _ _ _ new_line_keeps (proj1 R1) H2) as R2.
       eapply R_trans; [exact R1|]. eapply R_trans; [exact R2|].
       eapply (wrap_case (start_emphasis d) (end_emphasis d)); try eassumption;
-        [apply start_emphasis_keeps|apply end_emphasis_keeps].
+        [apply start_emphasis_keeps|apply end_emphasis_keeps|exact (proj1 R2)].
     - (* IDd *)
-      start H Hinv sz ap st1 ps R1. destruct (R_avail _ _ _ Hav R1) as [I1 A1].
-      unfold est_of in Hsz. rewrite Hsz in Ht. apply andb_true_iff in Ht. destruct Ht as [Hf Ht].
+      start H Hinv sz ap st1 ps R1. pose proof (proj1 R1) as I1.
       bind_inv H iw Hiw. unfold usub in Hiw.
       destruct (2 <=? e_min sz); [|discriminate]. ok_inv Hiw.
       bind_inv H tp Htp. bind_inv H w Hw. bind_inv H st2 H2. bind_inv H pp Hpp.
       destruct pp as [sub st3]. bind_inv H st4 H4.
-      destruct (prefixed_scope _ _ _ _ _ _ st2 sub st3 I1 A1 Htp Hw Hf) as [R3 Kapp]; [|exact Hpp|].
-      { intros Ip Ap. eapply render_kids_R; eassumption. }
+      destruct (prefixed_scope _ _ _ _ _ st2 sub st3 I1 Htp Hw) as [R3 Kapp]; [|exact Hpp|].
+      { intros Ip. eapply render_kids_R; eassumption. }
       assert (R4 : R st3 st4).
       { eapply (with_top_RW (swidth_ tp)); [|
           rewrite (shape_topw _ _ (proj2 R3)); apply top_topw, Htp|exact (proj1 R3)|exact H4].
@@ -2036,19 +2272,17 @@ Section RenderLayer.
       pose proof (unwind_R _ _ _ (proj1 R2) H) as R3.
       eapply R_trans; [exact R1|]. eapply R_trans; eassumption.
     - (* IListItem *)
-      start H Hinv sz ap st1 ps R1. destruct (R_avail _ _ _ Hav R1) as [I1 A1].
-      eapply R_trans; [exact R1|].
+      start H Hinv sz ap st1 ps R1. eapply R_trans; [exact R1|].
       eapply (wrap_case start_block (fun s => Ok (end_block s))); try eassumption;
-        [apply start_block_keeps|apply end_block_pure].
+        [apply start_block_keeps|apply end_block_pure|exact (proj1 R1)].
     - (* ISup *)
-      start H Hinv sz ap st1 ps R1. destruct (R_avail _ _ _ Hav R1) as [I1 A1].
-      eapply R_trans; [exact R1|].
+      start H Hinv sz ap st1 ps R1. eapply R_trans; [exact R1|].
       destruct (sup_digits cs) as [digitstr|].
       + bind_inv H st2 H2.
-        pose proof (inline_text_R _ _ _ I1 H2) as R2.
+        pose proof (inline_text_R _ _ _ (proj1 R1) H2) as R2.
         pose proof (unwind_R _ _ _ (proj1 R2) H) as R3. eapply R_trans; eassumption.
       + eapply (wrap_case (start_superscript d) (end_superscript d)); try eassumption;
-          [apply start_superscript_keeps|apply end_superscript_keeps].
+          [apply start_superscript_keeps|apply end_superscript_keeps|exact (proj1 R1)].
   Qed.
 End RenderLayer.
 (* ================================================================== *)
@@ -2084,30 +2318,29 @@ Proof.
   - apply chars_le_relabel, Hu1.
 Qed.
 
-(* The decidable side condition of the theorem; Wl bounds the widths of link-target
-   characters (only checked when footnotes are on). *)
-Definition c02_side (d : deco) (min_wrap : N) (o : ropts) (Wl width : N) (tree : rnode) : bool :=
-  tree_ok d min_wrap (o_footnotes o) Wl (Some width) tree.
+(* The decidable side condition of the theorem (tree_ok, section 12):
+   (b) every ordered list has i64_min <= start (always true of trees built from a DOM);
+   (c) when footnotes are on, every character of every link target is at most Wl columns. *)
+Definition c02_side (o : ropts) (Wl : N) (tree : rnode) : bool :=
+  tree_ok (o_footnotes o) Wl tree.
 
 Theorem c02_render_width_bound_gen :
   forall (d : deco) (min_wrap : N) (o : ropts) (Wl width : N) (tree : rnode) (s : subr),
-  ol_prefix_monotone d ->
+  ol_prefix_monotone d -> ol_prefix_sat d ->
   o_allow_overflow o = false ->
   (o_footnotes o = true -> o_wrap_links o = true) ->
   1 <= width -> Wl <= width ->
-  c02_side d min_wrap o Wl width tree = true ->
+  c02_side o Wl tree = true ->
   render_tree d min_wrap o width tree = Ok s ->
   forall ls, sub_into_lines s = Ok ls -> forall r, In r ls -> rline_width r <= width.
 Proof.
-  intros d mw o Wl width tree s Hd Hovf Hwrap Hw HWl Hside H.
+  intros d mw o Wl width tree s Hd Hsat Hovf Hwrap Hw HWl Hside H.
   unfold render_tree in H. bind_inv H e He. bind_inv H st Hst.
   set (st0 := mkrst [sub_new width o] []) in Hst.
   assert (I0 : st_inv (o_footnotes o) Wl st0).
   { split; [|intros _; constructor]. cbn [st0 stack]. constructor; [|constructor].
     unfold sub_new. apply sub_ok_mk; cbn; auto; [intros r []|intros ? [=]]. }
-  assert (A0 : avail_ok (Some width) st0).
-  { intros a [= <-]. exists width. split; [reflexivity|lia]. }
-  destruct (node_ok_all d mw (o_footnotes o) Wl Hd tree (Some width) st0 st Hside I0 A0 Hst)
+  destruct (node_ok_all d mw (o_footnotes o) Wl Hd Hsat tree st0 st Hside I0 Hst)
     as [[I1 I2] Esh].
   destruct (stack st) as [|s0 [|s1 rest]] eqn:Es; try discriminate.
   unfold shape in Esh. rewrite Es in Esh. cbn [st0 stack map] in Esh. injection Esh as Ew Eo.
@@ -2120,6 +2353,7 @@ Proof.
       + bind_inv H s1 H1. injection H as <-.
         destruct (start_block_keeps _ _ Hs0 H1) as [A [B1 B2]].
         destruct (fmt_links_ok (l0 :: ls0) s1 A) as [C [D1 D2]].
+        * lia.
         * rewrite B2, Eo. auto.
         * rewrite <- Ef. rewrite B1.
           apply finalise_from_ok; [lia|].
@@ -2134,31 +2368,48 @@ Qed.
 (* The main statement: link-target characters are checked against the width itself. *)
 Theorem c02_render_width_bound :
   forall (d : deco) (min_wrap : N) (o : ropts) (width : N) (tree : rnode) (s : subr),
-  ol_prefix_monotone d ->
+  ol_prefix_monotone d -> ol_prefix_sat d ->
   o_allow_overflow o = false ->
   (o_footnotes o = true -> o_wrap_links o = true) ->
   1 <= width ->
-  c02_side d min_wrap o width width tree = true ->
+  c02_side o width tree = true ->
   render_tree d min_wrap o width tree = Ok s ->
   forall ls, sub_into_lines s = Ok ls -> forall r, In r ls -> rline_width r <= width.
 Proof.
-  intros d mw o width tree s Hd Hovf Hwrap Hw Hside.
+  intros d mw o width tree s Hd Hsat Hovf Hwrap Hw Hside.
   apply (c02_render_width_bound_gen d mw o width width tree s); auto. lia.
 Qed.
 
 (* The variant with 2 <= width: every link-target character is at most 2 columns wide. *)
 Theorem c02_render_width_bound_w2 :
   forall (d : deco) (min_wrap : N) (o : ropts) (width : N) (tree : rnode) (s : subr),
-  ol_prefix_monotone d ->
+  ol_prefix_monotone d -> ol_prefix_sat d ->
   o_allow_overflow o = false ->
   (o_footnotes o = true -> o_wrap_links o = true) ->
   2 <= width ->
-  c02_side d min_wrap o 2 width tree = true ->
+  c02_side o 2 tree = true ->
   render_tree d min_wrap o width tree = Ok s ->
   forall ls, sub_into_lines s = Ok ls -> forall r, In r ls -> rline_width r <= width.
 Proof.
-  intros d mw o width tree s Hd Hovf Hwrap Hw Hside.
+  intros d mw o width tree s Hd Hsat Hovf Hwrap Hw Hside.
   apply (c02_render_width_bound_gen d mw o 2 width tree s); auto. lia.
+Qed.
+
+(* Without footnotes the side condition only concerns the ordered-list starts. *)
+Corollary c02_render_width_bound_nofoot :
+  forall (d : deco) (min_wrap : N) (o : ropts) (width : N) (tree : rnode) (s : subr),
+  ol_prefix_monotone d -> ol_prefix_sat d ->
+  o_allow_overflow o = false -> o_footnotes o = false -> 1 <= width ->
+  tree_ok false 0 tree = true ->
+  render_tree d min_wrap o width tree = Ok s ->
+  forall ls, sub_into_lines s = Ok ls -> forall r, In r ls -> rline_width r <= width.
+Proof.
+  intros d mw o width tree s Hd Hsat Hovf Hfn Hw Hside.
+  apply (c02_render_width_bound_gen d mw o 0 width tree s Hd Hsat Hovf).
+  - intros X. rewrite Hfn in X. discriminate.
+  - exact Hw.
+  - lia.
+  - unfold c02_side. rewrite Hfn. exact Hside.
 Qed.
 
 (* ================================================================== *)
@@ -2178,19 +2429,19 @@ Section Routes.
   (* the side condition, on the document: decidable (everything is computable) *)
   Definition c02_doc_side (c : config) (doc : list node) (w : N) : bool :=
     match to_render_tree inline_styles doc_rules c doc with
-    | Ok tree => c02_side (c_deco c) (c_min_wrap c) (render_options c) w w tree
+    | Ok tree => c02_side (render_options c) w tree
     | _ => true
     end.
 
   Theorem c02_lines_from_read : forall (c : config) (doc : list node) (w : N) (ls : list tline),
-    ol_prefix_monotone (c_deco c) ->
+    ol_prefix_monotone (c_deco c) -> ol_prefix_sat (c_deco c) ->
     c_overflow c = false ->
     (c_footnotes c = true -> c_wrap_links c = true) ->
     c02_doc_side c doc w = true ->
     lines_from_read inline_styles doc_rules c doc w = Ok ls ->
     forall l, In l ls -> tl_width_raw l <= w.
   Proof.
-    intros c doc w ls Hd Hovf Hwrap Hside H l Hl.
+    intros c doc w ls Hd Hsat Hovf Hwrap Hside H l Hl.
     unfold lines_from_read in H. bind_inv H tree Htree. bind_inv H s Hs. bind_inv H rls Hrls.
     ok_inv H. apply in_map_iff in Hl. destruct Hl as (r & <- & Hr).
     rewrite raw_into_tagged. unfold c02_doc_side in Hside. rewrite Htree in Hside.
@@ -2231,7 +2482,7 @@ Example ex_render_ok :
   Ok [10; 5; 0; 12; 12; 12; 12; 12; 12; 12; 9; 7; 5; 5].
 Proof. vm_compute. reflexivity. Qed.
 
-Example ex_side_ok : c02_side plain_deco 3 ex_opts 12 12 ex_tree = true.
+Example ex_side_ok : c02_side ex_opts 12 ex_tree = true.
 Proof. vm_compute. reflexivity. Qed.
 
 (* the theorem applies to the example, which has 14 lines *)
@@ -2248,56 +2499,75 @@ Proof. vm_compute. reflexivity. Qed.
 Example ex_theorem_applies : forall r, In r ex_ls -> rline_width r <= 12.
 Proof.
   refine (c02_render_width_bound plain_deco 3 ex_opts 12 ex_tree ex_s
-            ol_prefix_monotone_plain eq_refl _ _ ex_side_ok ex_render_eq ex_ls ex_lines_eq).
+            ol_prefix_monotone_plain ol_prefix_sat_plain eq_refl _ _ ex_side_ok ex_render_eq
+            ex_ls ex_lines_eq).
   - intros X. discriminate X.
   - lia.
 Qed.
 
-(* ---- Counterexamples of the model excluded by the side conditions ---- *)
+(* ---- Regression examples: former counterexamples of the model (fixed in the code) ---- *)
 
-(* (1) A prefix wider than the whole line, around content whose estimated minimum width
-   is 0 but which still emits a line: <ul><li><table><tr><td></td></tr></table></li></ul>
-   at width 1 (the empty table emits its bottom border, an empty line, to which the
-   2-column prefix "* " is attached); same with a zero-width character as the content.
-   width_minus saturates (1 - 2 = 0), and the size estimate (0) does not reject it. *)
+(* A prefix wider than the whole line, around content whose estimated minimum width is 0 but
+   which still emits a line, used to overflow (width_minus saturated).  Now TooNarrow, and
+   within the width as soon as the prefix fits (the child sub-renderer then has width 0). *)
 Definition cex_empty_table : rnode := ex_n (ITable [RRow [RCell 1 [] cstyle0] cstyle0] 1).
 Definition cex1 : rnode := ex_n (IUl [ex_n (IListItem [cex_empty_table])]).
-Example cex1_overflows :
-  ex_widths (render_tree plain_deco 3 ex_opts 1 cex1) = Ok [2] /\
-  c02_side plain_deco 3 ex_opts 1 1 cex1 = false.
+Example cex1_fixed :
+  ex_widths (render_tree plain_deco 3 ex_opts 1 cex1) = TooNarrow /\
+  ex_widths (render_tree plain_deco 3 ex_opts 2 cex1) = Ok [2].
 Proof. split; vm_compute; reflexivity. Qed.
 
 Definition cex_zw : chr := mkchr 8203 (Some 0) false 16.      (* U+200B *)
 Definition cex1b : rnode := ex_n (IUl [ex_n (IListItem [ex_n (IText [cex_zw])])]).
-Example cex1b_overflows :
-  ex_widths (render_tree plain_deco 3 ex_opts 1 cex1b) = Ok [2] /\
-  c02_side plain_deco 3 ex_opts 1 1 cex1b = false.
+Example cex1b_fixed :
+  ex_widths (render_tree plain_deco 3 ex_opts 1 cex1b) = TooNarrow /\
+  ex_widths (render_tree plain_deco 3 ex_opts 2 cex1b) = Ok [2].
 Proof. split; vm_compute; reflexivity. Qed.
 
-(* the same at larger widths with wider prefixes: <h3> at width 3, <ol start=1000> at width 5 *)
 Definition cex1c : rnode := ex_n (IHeader 3 [cex_empty_table]).
-Example cex1c_overflows :
-  ex_widths (render_tree plain_deco 3 ex_opts 3 cex1c) = Ok [4] /\
-  c02_side plain_deco 3 ex_opts 3 3 cex1c = false.
+Example cex1c_fixed :
+  ex_widths (render_tree plain_deco 3 ex_opts 3 cex1c) = TooNarrow /\
+  ex_widths (render_tree plain_deco 3 ex_opts 4 cex1c) = Ok [4].
 Proof. split; vm_compute; reflexivity. Qed.
 
 Definition cex1d : rnode := ex_n (IOl 1000 [ex_n (IListItem [cex_empty_table])]).
-Example cex1d_overflows :
-  ex_widths (render_tree plain_deco 3 ex_opts 5 cex1d) = Ok [6] /\
-  c02_side plain_deco 3 ex_opts 5 5 cex1d = false.
+Example cex1d_fixed :
+  ex_widths (render_tree plain_deco 3 ex_opts 5 cex1d) = TooNarrow /\
+  ex_widths (render_tree plain_deco 3 ex_opts 6 cex1d) = Ok [6].
 Proof. split; vm_compute; reflexivity. Qed.
 
-(* (2) max_wrap set and min_wrap = 0: the sub-renderer of the list item has width 0, but
-   its wrapping block gets width max (min 5 0) 1 = 1, so "x" fits: "* x" at width 2 *)
+(* max_wrap set and min_wrap = 0: the wrapping block of a width-0 sub-renderer used to get
+   width 1; now it has width 0 and "x" does not fit *)
 Definition cex2 : rnode := ex_n (IUl [ex_n (IListItem [ex_n (IText (ex_str [120]))])]).
-Example cex2_overflows :
+Example cex2_fixed :
   ex_widths (render_tree plain_deco 0 (render_options (set_max_wrap (with_decorator plain_deco) 5)) 2 cex2)
-    = Ok [3] /\
-  c02_side plain_deco 0 (render_options (set_max_wrap (with_decorator plain_deco) 5)) 2 2 cex2 = false.
+    = TooNarrow /\
+  ex_widths (render_tree plain_deco 0 (render_options (set_max_wrap (with_decorator plain_deco) 5)) 3 cex2)
+    = Ok [3].
 Proof. split; vm_compute; reflexivity. Qed.
 
-(* (3) footnotes without link wrapping (an option, not a defect): the footnote line
-   "[1]: xxxxxxxxxxxx" is not wrapped *)
+(* the theorem covers all of them (the side condition holds) *)
+Example cex_side_ok :
+  c02_side ex_opts 1 cex1 = true /\ c02_side ex_opts 1 cex1b = true /\
+  c02_side ex_opts 3 cex1c = true /\ c02_side ex_opts 5 cex1d = true /\
+  c02_side ex_opts 2 cex2 = true.
+Proof. vm_compute. repeat split. Qed.
+
+(* an ordered list whose numbering saturates at i64_max: covered *)
+Definition ex_sat : rnode :=
+  ex_n (IOl 9223372036854775806
+            [ex_n (IListItem [ex_n (IText (ex_str [120]))]);
+             ex_n (IListItem [ex_n (IText (ex_str [120]))]);
+             ex_n (IListItem [ex_n (IText (ex_str [120]))])]).
+Example ex_sat_ok :
+  ex_widths (render_tree plain_deco 3 ex_opts 30 ex_sat) = Ok [22; 22; 22] /\
+  c02_side ex_opts 30 ex_sat = true.
+Proof. split; vm_compute; reflexivity. Qed.
+
+(* ---- Counterexamples that remain, excluded by the hypotheses ---- *)
+
+(* footnotes without link wrapping (an option, not a defect): the footnote line
+   "[1]: xxxxxxxxxxxx" is not wrapped; excluded by (o_footnotes -> o_wrap_links) *)
 Definition cex3 : rnode := ex_n (ILink (ex_str [120;120;120;120;120;120;120;120;120;120;120;120])
                                        [ex_n (IText (ex_str [120]))]).
 Example cex3_overflows :
@@ -2306,28 +2576,28 @@ Example cex3_overflows :
   = Ok [6; 0; 17].
 Proof. vm_compute. reflexivity. Qed.
 
-(* (4) a link target with a character wider than the line (known defect of fmt_links) *)
+(* a link target with a character wider than the line (known defect of fmt_links);
+   excluded by the link-target check of c02_side *)
 Definition cex4 : rnode := ex_n (ILink [mkchr 19990 (Some 2) false 16] [ex_n (IText [cex_zw])]).
 Example cex4_overflows :
   ex_widths (render_tree plain_deco 3
      (render_options (set_footnotes (with_decorator plain_deco) true)) 1 cex4)
   = Ok [1; 1; 1; 1; 1; 0; 1; 1; 1; 1; 1; 2] /\
-  c02_side plain_deco 3 (render_options (set_footnotes (with_decorator plain_deco) true)) 1 1 cex4
-  = false.
+  c02_side (render_options (set_footnotes (with_decorator plain_deco) true)) 1 cex4 = false.
 Proof. split; vm_compute; reflexivity. Qed.
 
 Check (c02_render_width_bound :
   forall (d : deco) (min_wrap : N) (o : ropts) (width : N) (tree : rnode) (s : subr),
-  ol_prefix_monotone d ->
+  ol_prefix_monotone d -> ol_prefix_sat d ->
   o_allow_overflow o = false ->
   (o_footnotes o = true -> o_wrap_links o = true) ->
   1 <= width ->
-  c02_side d min_wrap o width width tree = true ->
+  c02_side o width tree = true ->
   render_tree d min_wrap o width tree = Ok s ->
   forall ls, sub_into_lines s = Ok ls -> forall r, In r ls -> rline_width r <= width).
 Check (c02_lines_from_read :
   forall inl dr (c : config) (doc : list node) (w : N) (ls : list tline),
-  ol_prefix_monotone (c_deco c) ->
+  ol_prefix_monotone (c_deco c) -> ol_prefix_sat (c_deco c) ->
   c_overflow c = false ->
   (c_footnotes c = true -> c_wrap_links c = true) ->
   c02_doc_side inl dr c doc w = true ->
@@ -2338,8 +2608,12 @@ Print Assumptions node_ok_all.
 Print Assumptions c02_render_width_bound_gen.
 Print Assumptions c02_render_width_bound.
 Print Assumptions c02_render_width_bound_w2.
+Print Assumptions c02_render_width_bound_nofoot.
 Print Assumptions c02_lines_from_read.
 Print Assumptions ol_prefix_monotone_plain.
 Print Assumptions ol_prefix_monotone_rich.
 Print Assumptions ol_prefix_monotone_trivial.
+Print Assumptions ol_prefix_sat_plain.
+Print Assumptions ol_prefix_sat_rich.
+Print Assumptions ol_prefix_sat_trivial.
 Print Assumptions ex_theorem_applies.
